@@ -1,366 +1,2041 @@
-"""C11 expanding / factoring / reducing intermediates (structural clauses)."""
+"""C11 expanding / factoring / reducing intermediates: every clause is decided by abstract evaluation (sa.symex) of the
+library functions on abstract terms, tensors and pools; the verdicts depend on what the functions compute, not on how the
+source spells it."""
 from __future__ import annotations
 
 import ast
+import re
+from fractions import Fraction
 
-from ..model import AnalysisError, U, Defs, calls_in, call_name, walk_fn, kwarg, enclosing, enclosing_stmt, short
-from ..pathcond import conditions
-from . import common
+from ..symex import Symex, Obj, Func
+from ..terms import (T, sym, show, subterms, args_of, strip, expand_products, canon, is_num, t_mul, t_add, t_pow)
+from ..model import AnalysisError, U
 from . import c08, c13
-from .itmd_ir import registry, CANON_KEY, need_bra_ket_swap
 
 EXPLANATION = (
-    "R11a: expand_itmd substitution (targets zip(base_target, indices); every base contracted index "
-    "gets a fresh generic index of the same (space, spin), surplus raises; ordered; zero-guarded; "
-    "validate_indices demands equal length and position-wise equal space). R11b: term conservation "
-    "in t2_1.factor_itmd, _factor_short_intermediate (every path adds the possibly factored term "
-    "once), _factor_long_intermediate (unfactored terms added at the end; factored_terms.update "
-    "paired with adding the factored term; mixed-prefactor completion adds (pref - desired) * term), "
-    "factor_itmd's relevant/irrelevant split, prefactor formulas. R11c: the Zero placeholder is "
-    "resolved to 0 only for the tensor named 'Zero', which only re_residual classes build. R11d: all "
-    "definitions bind every referenced intermediate as X.expand_itmd if fully_expand else X.tensor "
-    "(residuals always .tensor). R11e: for every registered class the reader's name "
-    "(Obj.longname with default names, computed from the tensor _build_tensor constructs) equals the "
-    "class name. R11f: the index order read back from that tensor (lower+upper for amplitudes, "
-    "upper+lower otherwise) reproduces _default_idx and construction does not permute the defaults. "
-    "R11g: reduce_expr bookkeeping (R13g) and ordered substitutions at its sites. R11h: pool clean-up "
-    "of LongItmdVariants visits every entry. R11i: the sign that maps a match's remainder onto the stored remainder is applied to both "
-    "stored prefactors (prefactor and unit factorisation prefactor). R13d/R13h: expansion skeleton incl. fresh contracted indices per factor of a "
-    "power; fraction cancellation bookkeeping.")
+    "All clauses are decided by evaluating the library functions abstractly (sa.symex): arguments are abstract records and "
+    "symbolic terms, the expensive primitives (term comparison, index generation, sympy objects, the intermediates' "
+    "definitions) are modelled or left uninterpreted, and the evaluated results are compared with the expected behaviour. "
+    "R11a: RegisteredIntermediate.expand_itmd evaluated for definitions with/without contracted indices (also with spin): "
+    "the result is base.subs(ordered {target_k -> requested_k, contracted -> index generated for THIS call, same (space, "
+    "spin), pairwise different}) wrapped with the requested indices as targets; fully_expand reaches the definition; spin "
+    "indices, surplus generated indices and substitutions that annihilate a non-zero definition are refused on exactly those "
+    "paths; two consecutive expansions use disjoint contracted indices (functions behind caching decorators are evaluated "
+    "once per argument tuple); validate_indices as a decision table (accepted iff same length and position-wise same "
+    "space, order kept). R11b: value conservation of the factorisation. t2_1.factor_itmd on concrete terms (integral "
+    "exponents, bracket exponents, matching/non-matching brackets): integral, bracket and amplitude are exchanged equally "
+    "often, the rest of the term is kept, early exits as a decision table. _factor_short_intermediate on abstract terms with "
+    "scripted variants (one, same objects, disjoint objects, overlapping, none, two terms): on every path every term enters "
+    "the sum once, unchanged or as _build_factored_term(remainder, term.pref*factor/itmd.pref, cls, images of the default "
+    "indices) with all four read off ONE variant and off the sign-canonical split that was compared. "
+    "_factor_long_intermediate: every match filed in the pool has prefactor term.pref*f/(n*itmd.pref), unit prefactor "
+    "itmd.pref*f*n (f = variant factor * sign of the minimised tensor), remainder/indices of its own variant; the result is "
+    "the two factorisation passes plus every term they did not consume, once. _factor_complete / _factor_mixed_prefactors "
+    "on a pool model: one factored term per variant, used terms marked and removed before the next variant, mixed "
+    "prefactors completed by (pref - common*unit)*term once per deviating term. factor_itmd: candidates through the "
+    "short/long factorisation (definition prepared for the already factored intermediates, max_order//order repetitions), "
+    "the rest added back, nothing-to-do table. factor_intermediates: requested intermediates (max_order filter) factored in "
+    "sequence on the running expression, each told its predecessors. R11c: _build_factored_term over a table of tensor "
+    "names: 0 exactly for 'Zero', remainder*pref*tensor otherwise; only re_residual classes build 'Zero'. R11d: every "
+    "_build_expanded_itmd evaluated for both levels: referenced intermediates enter as X.expand_itmd (fully expanding) / "
+    "X.tensor (residuals always .tensor) and both levels are the same formula. R11e/R11f: every _build_tensor is evaluated, "
+    "the tensor is constructed through the evaluated constructors of sympy_objects (canonical sort, bra-ket swap), its "
+    ".idx and Obj.longname(use_default_names=True) are evaluated (default and renamed tensor_names): long name = class "
+    "name, read-back index order = _default_idx, construction keeps groups and sign, every index used once; registry "
+    "flattening, registration and the look-up in Obj.expand_intermediates are evaluated. R11h: remove_used_terms / "
+    "clean_empty on ~45 concrete pools x 5 used-term sets against their specification. R11i: LongItmdVariants.add on a "
+    "decision table of stored remainders, signs and duplicates: both stored prefactors carry the sign of the remainder "
+    "mapping. R13d/R13g/R13h/R08a/R19c (owned elsewhere): expansion skeleton, reduce_expr bookkeeping, fraction "
+    "cancellation, ordered substitutions, registry look-ups by default names.")
 ASSUMPTIONS = [
-    "the matching logic (_compare_terms, LongItmdVariants, factor_denom, cancel_orb_energy_frac) is a runtime "
-    "statement and not decided",
+    "the matching logic itself (_compare_terms, _compare_remainder, _map_on_other_terms, minimize_tensor_indices, the search in "
+    "LongItmdVariants.get_complete_variant/get_mixed_pref_variant, factor_denom) is a runtime statement and not decided; the "
+    "rules decide that whatever these return is used consistently and conservatively",
+    "the value-preserving nature of EriOrbenergy(term).canonicalize_sign(), .expand(), Expr(...) and term.cancel_*() is assumed "
+    "(they are treated as transparent wrappers / uninterpreted factors)",
+    "scenarios are bounded: at most two terms per expression in the short factorisation, four in the long one, pools of at most "
+    "three itmd-index keys; integral/bracket exponents up to 2 (3 for a non-matching bracket)",
+    "which candidate terms/variants are chosen (relevance filter of factor_itmd, prescans, minimal-overlap choice) is only "
+    "constrained as far as the value of the result depends on it; factor_itmd's split is compared with its documented filter",
+    "sympy primitives are modelled: sympify, Tuple, _sort_anticommuting_fermions (stable sort by the library's own key "
+    "function, which is evaluated), object creation by super().__new__; S.Zero/S.One/S.NegativeOne are pairwise distinct",
 ]
 
 IT = "intermediates:RegisteredIntermediate."
 FI = "factor_intermediates:"
 
 
+# ---------------------------------------------------------------------------
+# abstract values shared by the scenarios
+
+
+def rec(_cls, _name, **attrs):
+    """abstract record whose attributes may be called ``name``/``cls``"""
+    o = Obj(_cls, _name)
+    o.attrs.update(attrs)
+    return o
+
+
+_INDEX = {}
+
+
+def mk_index(name, space=None, spin=""):
+    """Abstract ``Index``: an (interned, never mutated) record with the attributes the library reads; two records are
+    the same index iff they are the same object."""
+    space = space or space_name(name)
+    key = (name, space, spin)
+    if key not in _INDEX:
+        o = Obj(None, name)
+        o.attrs.update(name=name, space=space, spin=spin, space_and_spin=(space, spin), _classes=("Index",), dummy_index=0)
+        _INDEX[key] = o
+    return _INDEX[key]
+
+
+def space_name(n):
+    return "occ" if n[0] in "ijklmno" else "virt" if n[0] in "abcdefgh" else "general"
+
+
+def split_names(x):
+    return re.findall(r"[a-z]\d*", x)
+
+
+def get_symbols_model(sx, a, kw):
+    """get_symbols: names -> Index records (records pass through)."""
+    x = a[0] if a else kw.get("indices")
+    if isinstance(x, T):
+        return NotImplemented
+    if isinstance(x, Obj):
+        return [x]
+    if isinstance(x, str):
+        x = split_names(x)
+    return tuple(mk_index(n) if isinstance(n, str) else n for n in x)
+
+
+class IndexSource:
+    """Model of ``Indices().get_generic_indices``: every call hands out names never handed out before (per path);
+    ``surplus`` > 0 models a generator that returns more than requested."""
+
+    def __init__(self, surplus=0):
+        self.surplus = surplus
+        self.reset()
+
+    def reset(self, sx=None):
+        self.calls = []          # one dict name -> (space, spin) per call
+        self.requests = []
+
+    def __call__(self, sx, a, kw):
+        if any(isinstance(v, T) for v in kw.values()) or "**" in kw:
+            return NotImplemented
+        n_call = len(self.calls)
+        made, out = {}, {}
+        self.requests.append(dict(kw))
+        for k, n in kw.items():
+            parts = k.split("_")
+            sp, spin = (parts[0], parts[1]) if len(parts) == 2 else (parts[0], "")
+            if n == 0:
+                continue
+            lst = []
+            for i in range(n + self.surplus):
+                nm = f"<gen{n_call}.{sp}{'_' + spin if spin else ''}.{i}>"
+                lst.append(mk_index(nm, sp, spin))
+                made[nm] = (sp, spin)
+            out[(sp, spin)] = lst
+        self.calls.append(made)
+        return out
+
+
+CACHE_DECORATORS = ("cached_member", "cached_property", "cache", "lru_cache")
+
+
+def memo_hooks(model, modules, vocabulary=()):
+    """Functions behind a caching decorator evaluate once per argument tuple: the second call returns the first result
+    without re-running the body (so effects such as index generation inside them happen once)."""
+    hooks, memo = {}, {}
+    for mod in modules:
+        m = model.module(mod)
+        for q, fn in m.functions.items():
+            decos = [U(d).split("(")[0].split(".")[-1] for d in fn.decorator_list]
+            if not any(d in CACHE_DECORATORS for d in decos) or q.split(".")[-1] in vocabulary:
+                continue
+
+            def hook(sx, a, kw, fn=fn, q=f"{mod}:{q}"):
+                from ..symex import _freeze
+                key = (q, repr(_freeze(list(a))), repr(sorted((k, repr(_freeze(v))) for k, v in kw.items())))
+                if key not in memo:
+                    bound = a[0] if a and fn.args.args and fn.args.args[0].arg in ("self", "cls") else None
+                    f = Func(fn, [], fn._module, fn._qual, bound=bound)
+                    memo[key] = sx._invoke(f, list(a[1:]) if bound is not None else list(a), kw, fn)
+                return memo[key]
+            hooks[f"{mod}:{q}"] = hook
+            if "." in q:
+                hooks[".".join(q.split(".")[-2:])] = hook
+    return hooks, memo
+
+
+def dict_of(t):
+    """python dict of a frozen ``dict`` term."""
+    if isinstance(t, T) and t.op == "dict":
+        return dict(t.args)
+    return None
+
+
+def nm(x):
+    return x.args[0] if isinstance(x, T) and x.op == "sym" else x.name if isinstance(x, Obj) else x
+
+
+# ---------------------------------------------------------------------------
+# R11a expansion of a definition on requested indices
+
+EXPAND_VOCAB = {"get_symbols", "order_substitutions", "_build_expanded_itmd", "get_generic_indices"}
+
+
+def _expand_sx(ctx, src, build, what):
+    hooks, memo = memo_hooks(ctx.model, ["intermediates"], EXPAND_VOCAB)
+    hooks.update({"get_symbols": get_symbols_model, "get_generic_indices": src, "_build_expanded_itmd": build})
+    sx = Symex(ctx.model, inline=lambda q: q.split(":")[-1].split(".")[-1] not in EXPAND_VOCAB, hooks=hooks, what=what,
+               max_paths=4096)
+
+    def start(sx_):
+        src.reset()
+        memo.clear()
+    sx.on_start = start
+    return sx
+
+
+def _subs_of(value):
+    """(base, substitution dict, simultaneous/ordered) of ``base.subs(order_substitutions(D))`` | ``base.subs(D, simultaneous=True)``."""
+    if not (isinstance(value, T) and value.op == "mcall" and value.args[1] == "subs"):
+        return None
+    a = args_of(value)
+    arg = a.get(0)
+    if isinstance(arg, T) and arg.op == "call" and arg.args[0] == "order_substitutions":
+        d = dict_of(args_of(arg).get("subsdict", args_of(arg).get(0)))
+        return (value.args[0], d, True) if d is not None else None
+    d = dict_of(arg)
+    if d is not None:
+        return value.args[0], d, a.get("simultaneous") is True
+    return None
+
+
+def _check_expansion(ctx, rule, fn, what, sub, src_call, targets, requested, contracted, key):
+    """the substitution of one expansion: targets by position, every contracted index onto its own fresh index."""
+    base, d, ordered = sub
+    d = {nm(k): nm(v) for k, v in d.items()}
+    want_t = {t: r for t, r in zip(targets or (), requested)}
+    got_t = {k: v for k, v in d.items() if k in (targets or ())}
+    ctx.check(rule, fn, got_t == want_t and (targets is None or len(targets) == len(requested)),
+              f"{what}: base targets -> requested indices by position",
+              f"{what}: the target indices of the definition are mapped {got_t}, expected {want_t}", key=f"target map {key}")
+    got_c = {k: v for k, v in d.items() if k not in (targets or ())}
+    cnames = [c for c, _ in contracted or ()]
+    ok = sorted(got_c) == sorted(cnames)
+    why = f"{what}: substituted contracted indices {sorted(got_c)}, the definition contracts {sorted(cnames)}"
+    if ok:
+        imgs = list(got_c.values())
+        if len(set(imgs)) != len(imgs):
+            ok, why = False, f"{what}: two contracted indices share one replacement: {got_c}"
+        for c, ss in contracted or ():
+            g = src_call.get(got_c[c])
+            if g is None:
+                ok, why = False, (f"{what}: contracted index {c} is replaced by `{got_c[c]}`, which was not generated for this "
+                                  "expansion (indices of two expansions coincide: an index then occurs four times in a product)")
+                break
+            if g != ss:
+                ok, why = False, f"{what}: contracted index {c} {ss} is replaced by an index of {g}"
+                break
+    ctx.check(rule, fn, ok, f"{what}: one fresh generic index per contracted index, same (space, spin), all different", why,
+              key=f"contracted map {key}")
+    ctx.check(rule, fn, ordered, f"{what}: substitution executed as a simultaneous one (ordered)",
+              f"{what}: the substitution dict is applied sequentially without ordering", key=f"ordered {key}")
+    return base
+
+
 def r11a(ctx):
     rule = "R11a"
     fn = ctx.model.fn(IT + "expand_itmd")
-    up = [c for c in calls_in(fn) if call_name(c) == "update" and U(c.func.value) == "subs"]
-    ctx.check(rule, fn, len(up) == 1 and U(up[0].args[0]) == "{o: n for o, n in zip(base_target, indices)}",
-              "target map: base targets -> requested indices by position", "target map changed", key="target map")
-    a = {U(x.targets[0]): U(x.value) for x in walk_fn(fn) if isinstance(x, ast.Assign)}
-    ctx.check(rule, fn, a.get("spaces") == "[s.space_and_spin for s in base_contracted]" and
-              a.get("kwargs") == "Counter((f'{sp}_{spin}' if spin else sp for sp, spin in spaces))" and
-              a.get("contracted") == "Indices().get_generic_indices(**kwargs)",
-              "one fresh generic index per base contracted index, same (space, spin)", "generation of fresh contracted indices changed",
-              key="fresh contracted")
-    ctx.check(rule, fn, a.get("subs[old]") == "contracted[sp].pop()", "every base contracted index is replaced", "contracted map changed",
-              key="contracted map")
-    lp = [n for n in walk_fn(fn) if isinstance(n, ast.For) and U(n.iter) == "zip(base_contracted, spaces)"]
-    ctx.check(rule, fn, len(lp) == 1, "replacement drawn from the pool of the index's own (space, spin)", "pairing changed", key="pool pairing")
-    ra = [n for n in walk_fn(fn) if isinstance(n, ast.Raise) and ("any((li for li in contracted.values()))", True) in conditions(n)]
-    ctx.check(rule, fn, len(ra) == 1, "surplus fresh indices are an error", "surplus check removed", key="surplus")
-    z = [n for n in walk_fn(fn) if isinstance(n, ast.Raise) and any("itmd is S.Zero" in t and pol for t, pol in conditions(n))]
-    ctx.check(rule, fn, len(z) == 1, "substitution that annihilates the definition is refused", "zero guard removed", key="zero guard")
-    ctx.check(rule, fn, a.get("subs") in ("order_substitutions(subs)",) or any(U(x.value) == "order_substitutions(subs)" for x in walk_fn(fn)
-                                                                              if isinstance(x, ast.Assign)),
-              "substitution ordered", "substitution not ordered", key="ordered")
-    ctx.check(rule, fn, a.get("itmd") is not None and any(U(x.value) == "expanded_itmd.expr.subs(subs)" for x in walk_fn(fn) if isinstance(x, ast.Assign)),
-              "applied to the cached base expression", "application changed", key="apply")
-    ctx.check(rule, fn, a.get("expanded_itmd") == "self._build_expanded_itmd(fully_expand)", "base expression of the requested expansion level",
-              "fully_expand not forwarded to the definition", key="level")
-    ex = [c for c in calls_in(fn) if U(c.func) == "e.Expr"]
-    ctx.check(rule, fn, len(ex) == 1 and U(kwarg(ex[0], "target_idx")) == "indices", "result carries the requested indices as targets",
-              "targets of the expanded definition changed", key="targets")
-    sp = [n for n in walk_fn(fn) if isinstance(n, ast.Raise) and ("any((idx.spin for idx in indices))", True) in conditions(n)]
-    ctx.check(rule, fn, len(sp) == 1, "indices with spin refused", "spin check removed", key="spin")
+    tnames, cn = ("i", "j", "a", "b"), (("k", ("occ", "")), ("c", ("virt", "")), ("l", ("occ", "")))
+    req = ("m", "n", "e", "f")
+    state = {}
+
+    def scenario(targets, contracted, requested, return_sympy, spin_at=None):
+        def build(sx, a, kw):
+            state["level"] = (a[1:], dict(kw))
+            return Obj(None, "base", expr=sym("BASE"), target=None if targets is None else tuple(mk_index(t) for t in targets),
+                       contracted=None if contracted is None else tuple(mk_index(c, s[0], s[1]) for c, s in contracted))
+
+        def args():
+            ind = tuple(mk_index(r, spin="a" if spin_at == k else "") for k, r in enumerate(requested))
+            return dict(self=Obj("intermediates:t2_2", "self", _default_idx=tnames), indices=ind, return_sympy=return_sympy,
+                        fully_expand=sym("LEVEL"))
+        return build, args
+
+    def run(src, build, args, what):
+        sx = _expand_sx(ctx, src, build, what)
+        return sx.run(fn, args)
+
+    for targets, contracted, rs, tag in ((tnames, cn, False, "full"), (tnames, cn, True, "sympy"), (tnames, None, True, "no contraction"),
+                                         (tnames, (("k", ("occ", "")), ("c", ("virt", "b")), ("d", ("virt", ""))), True, "spin")):
+        src = IndexSource()
+        build, args = scenario(targets, contracted, req, rs)
+        outs = run(src, build, args, f"expand_itmd[{tag}]")
+        rets = [o for o in outs if o.kind == "return"]
+        ctx.check(rule, fn, len(rets) >= 1, f"[{tag}] a valid request is expanded",
+                  f"expand_itmd[{tag}] refuses a valid request on every path: {outs[:3]}", key=f"returns {tag}")
+        for n_o, o in enumerate(outs):
+            # src state belongs to the last path only -> recompute from the names (self-describing)
+            gen = {}
+            for t in subterms(o.value) if o.kind == "return" else ():
+                if t.op == "sym" and str(t.args[0]).startswith("<gen"):
+                    _, sp, _ = str(t.args[0])[1:-1].split(".")
+                    gen[t.args[0]] = tuple(sp.split("_")) if "_" in sp else (sp, "")
+            zero = [a for a, pol in o.path if pol and a.op == "cmp" and a.args[0] == "is" and any(
+                isinstance(x, T) and show(x).endswith("S.Zero") for x in a.args[1:])]
+            if o.kind == "raise":
+                # refused exactly when the substituted definition vanishes although the definition does not
+                vanished = [a for a in zero if any(isinstance(x, T) and x.op == "mcall" and x.args[1] == "subs" for x in a.args[1:])]
+                base_nz = any(not pol and a.op == "cmp" and a.args[0] == "is" and sym("BASE") in a.args[1:] for a, pol in o.path)
+                ctx.check(rule, fn, o.exc == "ValueError" and vanished and base_nz, f"[{tag}] annihilating substitution refused",
+                          f"expand_itmd[{tag}] raises {o.exc} on the path {o.path!r}", key=f"zero guard {tag} {n_o}")
+                continue
+            v = o.value
+            if not rs:
+                okw = isinstance(v, T) and v.op == "call" and v.args[0] == "Expr"
+                tgt = args_of(v).get("target_idx") if okw else None
+                ctx.check(rule, fn, okw and tuple(nm(x) for x in (tgt or ())) == req, f"[{tag}] result carries the requested indices as targets",
+                          f"expand_itmd[{tag}]: wrapped result has target indices {show(tgt)}, expected {req}", key=f"targets {tag} {n_o}")
+                v = args_of(v).get("e", args_of(v).get(0)) if okw else v
+            sub = _subs_of(v)
+            if sub is None:
+                ctx.bad(rule, fn, f"expand_itmd[{tag}] does not return the substituted definition: {show(v)[:200]}", key=f"apply {tag} {n_o}")
+                continue
+            base = _check_expansion(ctx, rule, fn, f"expand_itmd[{tag}]", sub, gen, targets, req, contracted, key=f"{tag} {n_o}")
+            ctx.check(rule, fn, base == sym("BASE"), f"[{tag}] applied to the cached base expression",
+                      f"expand_itmd[{tag}] substitutes in {show(base)[:120]}", key=f"apply {tag} {n_o}")
+            # vanishing result without a vanishing definition must not be returned
+            bad = [a for a in zero if any(isinstance(x, T) and x.op == "mcall" and x.args[1] == "subs" for x in a.args[1:])] and \
+                any(not pol and a.op == "cmp" and a.args[0] == "is" and sym("BASE") in a.args[1:] for a, pol in o.path)
+            ctx.check(rule, fn, not bad, f"[{tag}] no vanishing expansion of a non-vanishing definition returned",
+                      f"expand_itmd[{tag}] returns although the substitution annihilated the definition", key=f"zero guard ret {tag} {n_o}")
+        raised = [o for o in outs if o.kind == "raise"]
+        ctx.check(rule, fn, len(raised) >= 1, f"[{tag}] substitution that annihilates the definition is refused",
+                  f"expand_itmd[{tag}]: no path refuses a substitution that turns a non-zero definition into zero", key=f"zero guard {tag}")
+        lv = state.get("level")
+        ctx.check(rule, fn, lv is not None and (list(lv[0]) == [sym("LEVEL")] or lv[1].get("fully_expand") == sym("LEVEL")),
+                  f"[{tag}] base expression of the requested expansion level",
+                  f"expand_itmd[{tag}]: _build_expanded_itmd is called with {lv}; fully_expand is not forwarded to the definition",
+                  key=f"level {tag}")
+    # refusals
+    src = IndexSource()
+    build, args = scenario(tnames, cn, req, True, spin_at=2)
+    outs = run(src, build, args, "expand_itmd[spin index]")
+    ctx.check(rule, fn, outs and all(o.kind == "raise" and o.exc == "NotImplementedError" for o in outs), "indices with spin refused",
+              f"expand_itmd accepts a requested index with spin: {outs}", key="spin")
+    src = IndexSource(surplus=1)
+    build, args = scenario(tnames, cn, req, True)
+    outs = run(src, build, args, "expand_itmd[surplus]")
+    ctx.check(rule, fn, outs and all(o.kind == "raise" and o.exc == "RuntimeError" for o in outs), "surplus fresh indices are an error",
+              f"expand_itmd does not refuse left-over generated indices: {outs}", key="surplus")
+    _r11a_twice(ctx)
+    _r11a_validate(ctx)
+
+
+def _r11a_twice(ctx):
+    """two expansions in one run: the contracted indices of the second are generated anew (nothing between the request and the
+    generator may be cached)"""
+    rule = "R11a"
+    fn = ctx.model.fn(IT + "expand_itmd")
+    cn = (("k", ("occ", "")), ("c", ("virt", "")))
+    src = IndexSource()
+
+    def build(sx, a, kw):
+        return Obj(None, "base", expr=sym("BASE"), target=tuple(mk_index(t) for t in "ijab"),
+                   contracted=tuple(mk_index(c, s[0], s[1]) for c, s in cn))
+    sx = _expand_sx(ctx, src, build, "expand_itmd twice")
+    drv = ast.parse("r1 = self.expand_itmd(indices=I1, return_sympy=True, fully_expand=LEVEL)\n"
+                    "r2 = self.expand_itmd(indices=I2, return_sympy=True, fully_expand=LEVEL)\n").body
+    outs = sx.run_block(fn, drv, lambda: dict(self=Obj("intermediates:t2_2", "self", _default_idx=tuple("ijab")), LEVEL=sym("LEVEL"),
+                                              I1=tuple(mk_index(x) for x in "mnef"), I2=tuple(mk_index(x) for x in "mnef")))
+    done = [o for o in outs if o.kind == "fall"]
+    ctx.check(rule, fn, len(done) >= 1, "two consecutive expansions complete", f"two consecutive expansions: {outs[:3]}", key="twice returns")
+    for n_o, o in enumerate(done):
+        s1, s2 = _subs_of(o.env["r1"]), _subs_of(o.env["r2"])
+        if s1 is None or s2 is None:
+            ctx.bad(rule, fn, "two expansions: result is not the substituted definition", key=f"twice shape {n_o}")
+            continue
+        i1 = {nm(v) for k, v in s1[1].items() if nm(k) in ("k", "c")}
+        i2 = {nm(v) for k, v in s2[1].items() if nm(k) in ("k", "c")}
+        ctx.check(rule, fn, not (i1 & i2) and len(i1) == 2 and len(i2) == 2,
+                  "two expansions of one intermediate use disjoint contracted indices",
+                  f"two expansions of the same intermediate share the contracted indices {sorted(i1 & i2)} (generated once and "
+                  "re-used): in a product of two such factors an index occurs four times", key=f"twice {n_o}")
+
+
+def _r11a_validate(ctx):
+    rule = "R11a"
     vi = ctx.model.fn(IT + "validate_indices")
-    ra = [U(n._parent.test) if isinstance(n._parent, ast.If) else "" for n in walk_fn(vi) if isinstance(n, ast.Raise)]
-    ctx.check(rule, vi, ra == ["len(indices) != len(default)", "any((s.space != d.space for s, d in zip(indices, default)))"],
-              "requested indices: same number and position-wise same space as the defaults", f"validate_indices checks {ra}", key="validate")
+    default = ("i", "j", "a", "b")
+    hooks = {"get_symbols": get_symbols_model}
+    sx = Symex(ctx.model, inline=lambda q: q.split(".")[-1] not in ("get_symbols",), hooks=hooks, what="validate_indices")
+    table = [(None, True), ("klcd", True), ("ijab", True), ("kl", False), ("klcde", False), ("", False)]
+    for pos in range(4):
+        bad = list("klcd")
+        bad[pos] = "c" if pos < 2 else "k"
+        table.append(("".join(bad), False))
+    table += [("cdkl", False), ("kcld", False)]
+    for given, valid in table:
+        outs = sx.run(vi, lambda: dict(self=Obj("intermediates:t2_2", "self", _default_idx=default),
+                                       indices=None if given is None else tuple(mk_index(x) for x in split_names(given))))
+        if valid:
+            want = list(default if given is None else split_names(given))
+            ok = len(outs) == 1 and outs[0].kind == "return" and not isinstance(outs[0].value, T) and \
+                [nm(x) for x in outs[0].value] == want
+            ctx.check(rule, vi, ok, f"indices {given!r} accepted and returned in the given order",
+                      f"validate_indices({given!r}) for defaults {default}: {outs}", key=f"validate {given}")
+        else:
+            ctx.check(rule, vi, outs and all(o.kind == "raise" for o in outs),
+                      f"indices {given!r} refused (number / position-wise space differ from {''.join(default)})",
+                      f"validate_indices accepts {given!r} for the default indices {''.join(default)}: the definition would be "
+                      "expanded on indices of the wrong space", key=f"validate {given}")
+
+
+# ---------------------------------------------------------------------------
+# R11b: factoring conserves the value (every term of the input enters the result exactly once, unchanged or as
+# remainder * prefactor * tensor with a prefactor that makes the product equal to the term)
+
+FACTOR_VOCAB = {"_compare_terms", "_get_remainder", "_build_factored_term", "get_symbols", "_factor_short_intermediate",
+                "_factor_long_intermediate", "EriOrbenergy", "FactorizationTermData", "_factor_complete", "_factor_mixed_prefactors",
+                "_map_on_other_terms", "minimize_tensor_indices", "_compare_remainder", "LongItmdVariants", "order_substitutions",
+                "_prepare_itmd", "itmd_term_map"}
+TERM_WRAPPERS = dict(calls=("EriOrbenergy", "Expr"), mcalls=("canonicalize_sign", "expand"), attrs=("expr", "sympy"))
+
+
+def factor_inline(q):
+    return q.split(":")[-1].split(".")[-1] not in FACTOR_VOCAB
+
+
+def unwrap(t):
+    """value-preserving wrappers of a term removed (splitting into EriOrbenergy, sign canonicalisation, .expr/.sympy, Expr)"""
+    return strip(t, **TERM_WRAPPERS)
+
+
+def peel(t):
+    """outermost value-preserving wrappers removed (the arguments of what is inside stay as they are)"""
+    while isinstance(t, T):
+        if t.op == "call" and t.args[0] in TERM_WRAPPERS["calls"]:
+            a = args_of(t)
+            t = a.get(0, next(iter(a.values()), None) if a else None)
+        elif t.op == "mcall" and t.args[1] in TERM_WRAPPERS["mcalls"]:
+            t = t.args[0]
+        elif t.op == "attr" and t.args[1] in TERM_WRAPPERS["attrs"]:
+            t = t.args[0]
+        else:
+            break
+    return t
+
+
+def split_sum(v):
+    if isinstance(v, T) and v.op == "add":
+        return [x for x in v.args if not (is_num(x) and x == 0)]
+    return [] if (is_num(v) and v == 0) else [v]
+
+
+def is_canonical_split(term, src):
+    """``term`` is EriOrbenergy(src) with the sign canonicalised"""
+    return isinstance(term, T) and term.op == "mcall" and term.args[1] == "canonicalize_sign" and \
+        isinstance(term.args[0], T) and term.args[0].op == "call" and term.args[0].args[0] == "EriOrbenergy" and unwrap(term) == src
+
+
+def same_product(a, b):
+    return repr(canon(a)) == repr(canon(b))
+
+
+def _abstract_expr(name, terms, is_number=False):
+    o = Obj(None, name)
+    o.attrs.update(terms=terms, sympy=Obj(None, f"{name}.sympy", is_number=is_number), assumptions=sym(f"{name}.assumptions"))
+    return o
+
+
+def _variant(eri_i, denom_i, sub, factor):
+    return {"eri_i": list(eri_i), "denom_i": list(denom_i), "sub": {mk_index(k): mk_index(v) for k, v in sub.items()},
+            "sub_list": sym("SUB_LIST"), "factor": factor}
+
+
+SHORT_SCENARIOS = {
+    # name: (default idx, contracted idx of the itmd, itmd has a denominator, variants per term)
+    "one variant": ("ia", "k", True, [[((0,), (0,), {"i": "m", "a": "e"}, "F0")]]),
+    "same objects": ("ia", "k", True, [[((0,), (0,), {"i": "m", "a": "e"}, "F0"), ((0,), (0,), {"i": "l", "a": "d"}, "F1")]]),
+    "disjoint objects": ("ijab", "", True, [[((0,), (0,), {"i": "m", "j": "n"}, "F0"), ((1,), (1,), {"i": "k", "a": "c"}, "F1")]]),
+    "overlapping objects": ("ia", "kc", True, [[((0, 1), (0,), {"i": "m"}, "F0"), ((1, 2), (0,), {"i": "n"}, "F1"), ((3,), (1,), {"a": "e"}, "F2")]]),
+    "no denominator": ("ia", "k", False, [[((0, 0), (), {"i": "m"}, "F0")]]),
+    "no match": ("ia", "k", True, [None]),
+    "two terms": ("ia", "k", True, [[((0,), (0,), {"i": "m"}, "F0")], [((2,), (1,), {"a": "e"}, "G0")]]),
+    "second term unmatched": ("ia", "k", True, [[((1,), (0,), {"i": "m"}, "F0")], None]),
+}
+
+
+def _factored_matches(ctx, s, term_src, variants, compared, extra_ok=None):
+    """``s`` is _build_factored_term(remainder, pref, itmd_cls, itmd_indices) for one of the variants of the term, all
+    four read off the same variant and the very term object that was compared; returns an explanation or None"""
+    if not (isinstance(s, T) and s.op == "call" and s.args[0] == "_build_factored_term"):
+        return f"summand {show(s)[:160]} is neither the unchanged term nor a factored term"
+    a = args_of(s)
+    rem = a.get("remainder")
+    inner = peel(rem)
+    rec = None
+    if isinstance(inner, T) and inner.op == "call" and inner.args[0] == "_factor_short_intermediate":
+        rec = args_of(inner)
+        inner = rec.get("expr")
+    if not (isinstance(inner, T) and inner.op == "call" and inner.args[0] == "_get_remainder"):
+        return f"remainder {show(rem)[:160]} is not the remainder of the term"
+    g = args_of(inner)
+    term = g.get("term")
+    if not is_canonical_split(term, term_src):
+        return f"remainder is taken from {show(term)[:120]}, not from the sign-canonical split of the term"
+    if term not in compared:
+        return f"remainder is taken from {show(term)[:120]}, but another object was compared with the intermediate: {[show(c)[:80] for c in compared]}"
+    if rec is not None:
+        bad = [k for k in ("itmd", "itmd_data", "itmd_cls") if rec.get(k) != sym(k)]
+        if bad:
+            return f"the remainder is factored again with another {bad} than the current intermediate"
+    for v in variants or ():
+        if tuple(g.get("obj_i", ())) != tuple(v["eri_i"]) or tuple(g.get("denom_i", ())) != tuple(v["denom_i"]):
+            continue
+        want_idx = tuple(nm(v["sub"].get(mk_index(d), mk_index(d))) for d in v["_defaults"])
+        if tuple(nm(x) for x in a.get("itmd_indices", ())) != want_idx:
+            continue
+        want_pref = t_mul(T("attr", term, "pref"), v["factor"], t_pow(sym("ITMD_PREF"), -1))
+        if not same_product(a.get("pref"), want_pref):
+            return (f"prefactor {show(a.get('pref'))[:200]} of the factored term, expected term.pref * factor / itmd.pref = "
+                    f"{show(want_pref)[:200]}")
+        if a.get("itmd_cls") != sym("itmd_cls"):
+            return f"factored term built for {show(a.get('itmd_cls'))}"
+        return None
+    return (f"factored term with removed objects {g.get('obj_i')}/{g.get('denom_i')} and itmd indices "
+            f"{tuple(nm(x) for x in a.get('itmd_indices', ()))} mixes data of different variants {[(v['eri_i'], v['denom_i']) for v in variants or ()]}")
+
+
+def conserved(ctx, rule, fn, what, value, sources, judge, key):
+    """the returned sum has exactly one summand per source term; ``judge(k, summand)`` -> explanation | None"""
+    parts = split_sum(value)
+    owner = {}
+    why = None
+    for s in parts:
+        ks = [k for k, src in enumerate(sources) if any(x == src for x in subterms(s))]
+        if len(ks) != 1:
+            why = f"summand {show(s)[:160]} stems from {len(ks)} terms of the input"
+            break
+        owner.setdefault(ks[0], []).append(s)
+    if why is None:
+        for k, src in enumerate(sources):
+            got = owner.get(k, [])
+            if len(got) == 0:
+                why = f"term {show(src)} of the input is lost (the result is {show(value)[:200]})"
+            elif len(got) > 1:
+                why = f"term {show(src)} of the input enters the result {len(got)} times"
+            else:
+                why = judge(k, got[0])
+            if why:
+                break
+    ctx.check(rule, fn, why is None, f"{what}: every term enters the result once, unchanged or factored with the matching prefactor",
+              f"{what}: {why}", key=key)
+    return why is None
+
+
+def r11b_short(ctx):
+    rule = "R11b"
+    fn = ctx.model.fn(FI + "_factor_short_intermediate")
+    n_fact = n_keep = 0
+    for sname, (defaults, contracted, has_denom, per_term) in SHORT_SCENARIOS.items():
+        srcs = [sym(f"t{k}") for k in range(len(per_term))]
+        variants = []
+        for vs in per_term:
+            if vs is None:
+                variants.append(None)
+            else:
+                lst = []
+                for e_i, d_i, sub, f in vs:
+                    v = _variant(e_i, d_i, sub, sym(f))
+                    lst.append(v)
+                variants.append(lst)
+
+        def compare_terms(sx, a, kw):
+            names = ("term", "itmd_term", "term_data", "itmd_term_data")
+            b = dict(zip(names, a))
+            b.update(kw)
+            sx.effects.append(T("compared", b.get("term").term if isinstance(b.get("term"), Obj) else b.get("term"),
+                                nm(b.get("itmd_term")), b.get("term_data"), nm(b.get("itmd_term_data"))))
+            src = unwrap(b["term"]) if isinstance(b.get("term"), T) else None
+            if src not in srcs:
+                return None
+            vs = variants[srcs.index(src)]
+            return None if vs is None else [dict(v) for v in vs]
+
+        def args():
+            D = tuple(mk_index(x) for x in defaults)
+            itmd = Obj(None, "itmd", expr=Obj(None, "itmd.expr", idx=D + tuple(mk_index(x) for x in contracted)), pref=sym("ITMD_PREF"))
+            itmd_data = Obj(None, "itmd_data", eri_obj_descriptions={"V": 1}, denom_bracket_lengths={4: 1} if has_denom else None)
+            cls, _ = _tensor_provider("t9")
+            cls.attrs.update(default_idx=tuple(defaults))
+            return dict(expr=_abstract_expr("expr", list(srcs), is_number=sym("expr.is_number")), itmd=itmd, itmd_data=itmd_data, itmd_cls=cls)
+        sx = Symex(ctx.model, inline=factor_inline, hooks={"get_symbols": get_symbols_model, "_compare_terms": compare_terms},
+                   what=f"_factor_short_intermediate[{sname}]", max_paths=60000)
+        outs = sx.run(fn, args)
+        judged = set()
+        for o in outs:
+            if o.kind == "raise":
+                ctx.check(rule, fn, o.exc == "RuntimeError", f"[{sname}] contracted itmd index inside the remainder refused",
+                          f"_factor_short_intermediate[{sname}] raises {o.exc} on {o.path!r}", key=f"short raise {sname} {o.exc}")
+                continue
+            if any(pol and a == T("attr", sym("expr.sympy"), "is_number") or (pol and a == sym("expr.is_number")) for a, pol in o.path):
+                ctx.check(rule, fn, isinstance(o.value, Obj) and o.value.name == "expr", f"[{sname}] a number is returned unchanged",
+                          f"_factor_short_intermediate of a number returns {o.value!r}", key=f"short number {sname}")
+                continue
+            compared = [e.args[0] for e in o.effects if isinstance(e, T) and e.op == "compared"]
+            wrong = [e for e in o.effects if isinstance(e, T) and e.op == "compared" and (e.args[1] != "itmd" or e.args[3] != "itmd_data")]
+            if wrong:
+                ctx.bad(rule, fn, f"_factor_short_intermediate[{sname}] compares the term with {show(wrong[0])[:200]}, not with the intermediate",
+                        key=f"short compared {sname}")
+            state = []
+
+            def judge(k, s):
+                if unwrap(s) == srcs[k]:
+                    state.append("kept")
+                    return None
+                for v in variants[k] or ():
+                    v["_defaults"] = defaults
+                r = _factored_matches(ctx, s, srcs[k], variants[k], compared)
+                state.append("factored")
+                return r
+            sig = repr(canon(o.value))
+            if sig in judged:
+                continue
+            judged.add(sig)
+            conserved(ctx, rule, fn, f"_factor_short_intermediate[{sname}]", o.value, srcs, judge, key=f"short {sname} {len(judged)}")
+            n_fact += state.count("factored")
+            n_keep += state.count("kept")
+    ctx.floor(rule, "factored terms evaluated in _factor_short_intermediate", n_fact, 8)
+    ctx.floor(rule, "unchanged terms evaluated in _factor_short_intermediate", n_keep, 8)
+
+
+def powers(t):
+    """(coefficient, {factor: exponent}) of a product with integer powers distributed over inner products"""
+    coeff, out = Fraction(1), {}
+
+    def walk(x, e):
+        nonlocal coeff
+        if is_num(x):
+            coeff *= Fraction(x) ** e if x != 0 or e > 0 else 0
+        elif isinstance(x, T) and x.op == "mul":
+            for y in x.args:
+                walk(y, e)
+        elif isinstance(x, T) and x.op == "pow" and isinstance(x.args[1], int):
+            walk(x.args[0], e * x.args[1])
+        else:
+            out[x] = out.get(x, 0) + e
+    walk(t, 1)
+    return coeff, {k: v for k, v in out.items() if v != 0}
+
+
+T2_TERMS = {
+    # name: (eri objects [(description, indices, exponent)], denominator brackets [(matches eri number | None, exponent, is Expr)])
+    "single": ([("oovv", "mnef", 1), ("ovov", "kcld", 1)], [(0, 1, True), (None, 1, True)]),
+    "squared": ([("oovv", "mnef", 2)], [(None, 2, False), (0, 2, False)]),
+    "eri squared only": ([("oovv", "mnef", 2)], [(0, 1, True)]),
+    "bracket squared only": ([("oovv", "mnef", 1)], [(0, 2, False), (None, 1, True)]),
+    "two amplitudes": ([("oovv", "mnef", 1), ("vvvv", "efgh", 1), ("oovv", "klcd", 1)], [(2, 1, True), (None, 3, False), (0, 1, True)]),
+    "shared bracket": ([("oovv", "mnef", 1), ("oovv", "nmef", 1)], [(0, 2, False)]),
+    "bracket used up": ([("oovv", "mnef", 1), ("oovv", "nmef", 1)], [(0, 1, True)]),
+    "nothing to factor": ([("ovov", "kcld", 1), ("oovv", "mnef", 1)], [(None, 1, True), (None, 2, False)]),
+    "no oovv integral": ([("ovov", "kcld", 2)], [(None, 1, True)]),
+}
+
+
+def _dval(names):
+    """value of the t2_1 denominator e_a + e_b - e_i - e_j on the indices (i, j, a, b): symmetric within each pair only"""
+    names = list(names)
+    return ("D", tuple(sorted(names[:2])), tuple(sorted(names[2:])))
+
+
+def r11b_t2_1(ctx):
+    """t2_1.factor_itmd on concrete terms: result = prod_j (t2(idx_j)/pref_t2)^m_j * pref * (integrals with j removed m_j times)
+    * num / (denominator with matching brackets removed sum m_j times)"""
+    rule = "R11b"
+    fn = ctx.model.fn("intermediates:t2_1.factor_itmd")
+    n = 0
+    for sname, (eris, brackets) in T2_TERMS.items():
+        for with_denominator in (True, False):
+            def eri_orbenergy(sx, a, kw):
+                x = a[0] if a else kw.get("term")
+                if isinstance(x, T) and x.op == "sym" and str(x.args[0]).startswith("t"):
+                    return term_model(x)
+                # the definition of t2_1 itself
+                t2 = Obj(None, "T2")
+                e0 = Obj(None, "T2.eri0", idx=tuple(mk_index(c) for c in "ijab"), exponent=1)
+                e0.attrs["description"] = lambda sx_, a_, kw_: "oovv"
+
+                def subs(sx_, a_, kw_):
+                    d = dict_of(args_of(a_[0]).get("subsdict", args_of(a_[0]).get(0))) if isinstance(a_[0], T) and a_[0].op == "call" \
+                        else dict(a_[0]) if isinstance(a_[0], (list, dict)) else None
+                    if d is None:
+                        raise AnalysisError(f"R11b: substitution of the t2_1 denominator not understood: {show(a_[0])}")
+                    return _dval([nm(d.get(sym(c), d.get(mk_index(c), c))) for c in "ijab"])
+                can = Obj(None, "T2c", eri=Obj(None, "T2c.eri", objects=[e0]), denom=Obj(None, "T2c.denom", sympy=Obj(None, "T2c.denom.sympy", subs=subs)),
+                          pref=sym("T2_PREF"))
+                t2.attrs["canonicalize_sign"] = lambda sx_, a_, kw_: can
+                return t2
+
+            def term_model(src):
+                k = str(src.args[0])
+                raw = Obj(None, f"split({k})", denom=Obj(None, f"{k}.denom", sympy=Obj(None, f"{k}.denom.sympy", is_number=not with_denominator)),
+                          expr=sym(f"{k}.unchanged"))
+                objs = []
+                for j, (descr, idx, exp) in enumerate(eris):
+                    o = Obj(None, f"{k}.eri{j}", idx=tuple(mk_index(c) for c in idx), exponent=exp)
+                    o.attrs["description"] = lambda sx_, a_, kw_, d=descr: d
+                    objs.append(o)
+                bks = []
+                for b, (match, exp, is_expr) in enumerate(brackets):
+                    val = _dval(eris[match][1]) if match is not None else ("OTHER", b)
+                    if is_expr:
+                        bks.append(Obj("expr_container:Expr", f"{k}.bk{b}", sympy=val))
+                    else:
+                        bks.append(Obj("expr_container:Polynom", f"{k}.bk{b}", base_and_exponent=(val, exp)))
+                can = Obj(None, f"canonical({k})", denom_brackets=bks, eri=Obj(None, f"{k}.eri", objects=objs), pref=sym(f"{k}.pref"),
+                          num=sym(f"{k}.num"), expr=sym(f"{k}.canonical.unchanged"))
+                can.attrs["cancel_denom_brackets"] = lambda sx_, a_, kw_: T("call", f"{k}.denom_without", (tuple(a_[0]),), ())
+                can.attrs["cancel_eri_objects"] = lambda sx_, a_, kw_: T("call", f"{k}.eri_without", (tuple(a_[0]),), ())
+                raw.attrs["canonicalize_sign"] = lambda sx_, a_, kw_: can
+                return raw
+
+            def args():
+                expanded = _abstract_expr("expanded", [sym("t0"), sym("t1")])
+                expr = Obj("expr_container:Expr", "expr", real=True, sympy=Obj(None, "expr.sympy", is_number=False))
+                expr.attrs["expand"] = lambda sx_, a_, kw_: expanded
+                me = rec("intermediates:t2_1", "self", name="t2_1", **class_attrs(ctx.model.cls("intermediates:t2_1")))
+                return dict(self=me, expr=expr, factored_itmds=None, max_order=None)
+            sx = Symex(ctx.model, inline=lambda q: q.split(":")[-1].split(".")[-1] not in ("EriOrbenergy", "order_substitutions", "tensor", "expand_itmd"),
+                       hooks={"EriOrbenergy": eri_orbenergy, "Pow": lambda sx_, a_, kw_: t_pow(a_[0], a_[1])},
+                       what=f"t2_1.factor_itmd[{sname}]")
+            outs = sx.run(fn, args)
+            what = f"t2_1.factor_itmd[{sname}{'' if with_denominator else ', no denominator'}]"
+            if len(outs) != 1 or outs[0].kind != "return":
+                ctx.bad(rule, fn, f"{what}: {outs[:2]}", key=f"t2_1 shape {sname} {with_denominator}")
+                continue
+            parts = split_sum(outs[0].value)
+            why = None
+            if len(parts) != 2:
+                why = f"the two terms of the input give {len(parts)} summands: {show(outs[0].value)[:300]}"
+            for k, part in zip(("t0", "t1"), parts):
+                if why:
+                    break
+                if not with_denominator:
+                    if part != sym(f"{k}.unchanged"):
+                        why = f"a term without denominator becomes {show(part)[:200]}"
+                    continue
+                c, pw = powers(part)
+                tens, other = {}, {}
+                for f, e in pw.items():
+                    if isinstance(f, T) and f.op == "mcall" and f.args[1] == "tensor":
+                        a = args_of(f)
+                        if a.get("return_sympy") is not True:
+                            why = f"tensor requested wrapped: {show(f)}"
+                        tens["".join(nm(x) for x in a.get("indices", ()))] = e
+                    else:
+                        other[f] = e
+                m = {j: tens.get(idx, 0) for j, (d, idx, ex) in enumerate(eris)}
+                if set(tens) - {idx for _, idx, _ in eris}:
+                    why = f"amplitude on indices {sorted(set(tens) - {idx for _, idx, _ in eris})} that belong to no integral of the term"
+                    break
+                E = tuple(sorted(j for j in m for _ in range(m[j])))
+                total = sum(m.values())
+                want_eri = T("call", f"{k}.eri_without", (E,), ())
+                got_eri = [f for f in other if isinstance(f, T) and f.op == "call" and f.args[0] == f"{k}.eri_without"]
+                got_den = [f for f in other if isinstance(f, T) and f.op == "call" and f.args[0] == f"{k}.denom_without"]
+                if c != 1:
+                    why = f"numerical factor {c}"
+                elif len(got_eri) != 1 or other.get(got_eri[0]) != 1 or tuple(sorted(got_eri[0].args[1][0])) != E:
+                    why = (f"the amplitudes introduced are {m} (integral number: power), but the integrals removed are "
+                           f"{[tuple(sorted(g.args[1][0])) for g in got_eri]}: integral and amplitude do not balance")
+                elif len(got_den) != 1 or other.get(got_den[0]) != -1:
+                    why = f"denominator of the result: {[show(g) for g in got_den]}"
+                else:
+                    B = list(got_den[0].args[1][0])
+                    need = {}
+                    for j, mj in m.items():
+                        if mj:
+                            need[_dval(eris[j][1])] = need.get(_dval(eris[j][1]), 0) + mj
+                    have = {}
+                    for b in B:
+                        match = brackets[b][0]
+                        val = _dval(eris[match][1]) if match is not None else ("OTHER", b)
+                        have[val] = have.get(val, 0) + 1
+                    if need != have:
+                        why = (f"amplitudes introduced {m} need the brackets {need} removed, removed are {have} (bracket numbers {B}): "
+                               "integral, bracket and amplitude are not exchanged equally often")
+                    elif any(d != "oovv" for j, (d, _, _) in enumerate(eris) if m[j]):
+                        why = "an integral of another block than oovv is replaced by t2_1"
+                    else:
+                        rest = {f: e for f, e in other.items() if f not in (got_eri[0], got_den[0])}
+                        want = {sym(f"{k}.pref"): 1, sym(f"{k}.num"): 1}
+                        if total:
+                            want[sym("T2_PREF")] = -total
+                        if rest != want:
+                            why = f"remaining factors {({show(f): e for f, e in rest.items()})}, expected {({show(f): e for f, e in want.items()})}"
+                        else:
+                            # everything that can be exchanged is exchanged at least once when a matching pair exists
+                            possible = any(d == "oovv" and any(b[0] is not None and _dval(eris[b[0]][1]) == _dval(idx) for b in brackets)
+                                           for d, idx, _ in eris)
+                            if possible and not total:
+                                why = "a matching integral/bracket pair exists but nothing is factored"
+            n += 1
+            ctx.check(rule, fn, why is None, f"{what}: integral, bracket and amplitude exchanged equally often, rest of the term kept",
+                      f"{what}: {why}", key=f"t2_1 {sname} {with_denominator}")
+    ctx.floor(rule, "terms evaluated in t2_1.factor_itmd", n, 12)
+    # early exits and guards: decision table
+    me_attrs = class_attrs(ctx.model.cls("intermediates:t2_1"))
+    for is_number in (True, False):
+        for factored in (None, (), ("t2_1",), ("t1_2",), ["t1_2", "t2_1"]):
+            for max_order in (None, 0, 1, 2):
+                def args():
+                    expanded = _abstract_expr("expanded", [])
+                    expr = Obj("expr_container:Expr", "expr", real=True, sympy=Obj(None, "expr.sympy", is_number=is_number))
+                    expr.attrs["expand"] = lambda sx_, a_, kw_: expanded
+                    return dict(self=rec("intermediates:t2_1", "self", name="t2_1", **me_attrs), expr=expr, factored_itmds=factored,
+                                max_order=max_order)
+                sx = Symex(ctx.model, inline=lambda q: q.split(":")[-1].split(".")[-1] not in ("EriOrbenergy", "order_substitutions", "tensor", "expand_itmd"),
+                           hooks={"EriOrbenergy": lambda sx_, a_, kw_: Obj(None, "T2", canonicalize_sign=lambda s_, a2, k2: sym("T2c"))},
+                           what="t2_1.factor_itmd early exits")
+                outs = sx.run(fn, args)
+                skip = is_number or (factored is not None and "t2_1" in factored) or (max_order is not None and max_order < 1)
+                ok = len(outs) == 1 and outs[0].kind == "return" and \
+                    ((isinstance(outs[0].value, Obj) and outs[0].value.name == "expr") if skip else outs[0].value == 0)
+                ctx.check(rule, fn, ok, f"t2_1.factor_itmd(number={is_number}, factored={factored}, max_order={max_order}): "
+                          f"{'expression unchanged' if skip else 'terms processed'}",
+                          f"t2_1.factor_itmd(number={is_number}, factored={factored}, max_order={max_order}) gives {outs[:2]}, expected "
+                          f"{'the unchanged expression' if skip else 'the (empty) sum of processed terms'}",
+                          key=f"t2_1 early {is_number} {factored} {max_order}")
+    for tag, ex, exc in (("not an Expr", Obj(None, "expr", real=True, _classes=()), "Inputerror"),
+                         ("complex orbitals", Obj("expr_container:Expr", "expr", real=False), "NotImplementedError")):
+        sx = Symex(ctx.model, inline=lambda q: True, what="t2_1.factor_itmd guards")
+        outs = sx.run(fn, lambda: dict(self=rec("intermediates:t2_1", "self", name="t2_1", **me_attrs), expr=ex, factored_itmds=None, max_order=None))
+        ctx.check(rule, fn, outs and all(o.kind == "raise" and o.exc == exc for o in outs), f"t2_1.factor_itmd: {tag} refused",
+                  f"t2_1.factor_itmd: {tag} gives {outs[:2]}", key=f"t2_1 guard {tag}")
+
+
+class PoolModel:
+    """Model of the LongItmdVariants pool as _factor_complete/_factor_mixed_prefactors use it: a queue of variants per
+    (itmd indices, remainder); a variant is handed out only while none of its terms has been removed; handing out the same
+    variant again and again means the used terms were not removed."""
+
+    def __init__(self, queues, method):
+        self.queues, self.method = queues, method
+        self.used, self.log, self.given = set(), [], []
+        self.obj = Obj(None, "intermediate_variants")
+        self.obj.attrs.update(items=self.items, remove_used_terms=self.remove, clean_empty=self.clean,
+                              **{method: self.get, ("get_mixed_pref_variant" if method == "get_complete_variant" else "get_complete_variant"): self.other})
+
+    def items(self, sx, a, kw):
+        out = {}
+        for (idx, rem) in self.queues:
+            out.setdefault(idx, []).append(rem)
+        return list(out.items())
+
+    def other(self, sx, a, kw):
+        self.log.append(("wrong getter",))
+        return None
+
+    def get(self, sx, a, kw):
+        from ..symex import Raised
+        idx = kw.get("itmd_indices", a[0] if a else None)
+        rem = kw.get("remainder", a[1] if len(a) > 1 else None)
+        for n_v, v in enumerate(self.queues.get((idx, rem), [])):
+            terms = v["terms"]
+            if any(t in self.used for t in terms):
+                continue
+            self.given.append((idx, rem, n_v))
+            if self.given.count((idx, rem, n_v)) > 2:
+                raise Raised("TermsUsedTwice")
+            self.log.append(("get", idx, rem, n_v))
+            if self.method == "get_complete_variant":
+                return v["pref"], list(terms)
+            return list(v["prefs"]), list(terms), dict(v["units"]), dict(v["counter"])
+        self.log.append(("get", idx, rem, None))
+        return None
+
+    def remove(self, sx, a, kw):
+        ts = kw.get("used_terms", a[0] if a else None)
+        self.log.append(("remove", tuple(ts)))
+        self.used |= set(ts)
+
+    def clean(self, sx, a, kw):
+        self.log.append(("clean",))
+
+
+def _long_parts(ctx, fn, what, queues, method, expected_terms):
+    """runs _factor_complete/_factor_mixed_prefactors on the pool model; -> (outcome, pool, factored set) | None"""
+    st = {}
+
+    def args():
+        st["pool"] = PoolModel(queues, method)
+        st["factored"] = {90}
+        cls, _ = _tensor_provider("t9")
+        return dict(result=sym("RESULT"), terms=[sym(f"t{k}") for k in range(8)], itmd_cls=cls, factored_terms=st["factored"],
+                    intermediate_variants=st["pool"].obj)
+    sx = Symex(ctx.model, inline=factor_inline, what=what, max_paths=64)
+    outs = sx.run(fn, args)
+    if len(outs) != 1:
+        ctx.bad("R11b", fn, f"{what}: not one outcome: {outs[:3]}", key=f"{what} shape")
+        return None
+    return outs[0], st["pool"], st["factored"]
+
+
+def r11b_complete(ctx):
+    rule = "R11b"
+    fn = ctx.model.fn(FI + "_factor_complete")
+    I0, I1 = tuple(mk_index(c) for c in "ia"), tuple(mk_index(c) for c in "jb")
+    R0, R1 = sym("REM0"), sym("REM1")
+    tables = {
+        "nothing": {(I0, R0): []},
+        "one": {(I0, R0): [dict(pref=sym("P0"), terms=[0, 1])]},
+        "two in a row": {(I0, R0): [dict(pref=sym("P0"), terms=[0, 1]), dict(pref=sym("P1"), terms=[2, 3])]},
+        "overlapping": {(I0, R0): [dict(pref=sym("P0"), terms=[0, 1]), dict(pref=sym("P1"), terms=[1, 2]), dict(pref=sym("P2"), terms=[3, 3, 4])]},
+        "several pools": {(I0, R0): [dict(pref=sym("P0"), terms=[0, 1])], (I0, R1): [dict(pref=sym("P1"), terms=[1, 2]), dict(pref=sym("P2"), terms=[5])],
+                          (I1, R0): [dict(pref=sym("P3"), terms=[0, 6]), dict(pref=sym("P4"), terms=[6, 7])]},
+    }
+    for name, queues in tables.items():
+        what = f"_factor_complete[{name}]"
+        r = _long_parts(ctx, fn, what, queues, "get_complete_variant", None)
+        if r is None:
+            continue
+        o, pool, factored = r
+        # specification: greedily, pool by pool, every variant whose terms are all still unused
+        used, want_terms, want = set(), [], []
+        for (idx, rem), vs in queues.items():
+            for v in vs:
+                if any(t in used for t in v["terms"]):
+                    continue
+                used |= set(v["terms"])
+                want.append(T("call", "_build_factored_term", (), (("remainder", rem), ("pref", v["pref"]), ("itmd_cls", sym("itmd_cls")),
+                                                                      ("itmd_indices", tuple(x.term for x in idx)))))
+        if o.kind != "return":
+            ctx.bad(rule, fn, f"{what}: {o.exc}: a variant is handed out again because its terms were not removed from the pool "
+                    "(or the same terms are factored twice)" if o.exc == "TermsUsedTwice" else f"{what} raises {o.exc}", key=f"{what} pairing")
+            continue
+        ok_shape = isinstance(o.value, tuple) and len(o.value) == 2
+        res, flag = o.value if ok_shape else (None, None)
+        got = sorted(map(repr, split_sum(res))) if ok_shape else None
+        ctx.check(rule, fn, ok_shape and got == sorted(map(repr, [sym("RESULT")] + want)),
+                  f"{what}: result + one factored term (remainder, common prefactor, tensor on the itmd indices) per complete variant",
+                  f"{what}: returns {show(res)[:400]}, expected RESULT + {[show(w) for w in want]}", key=f"{what} new term")
+        ctx.check(rule, fn, factored == {90} | used and pool.used == used,
+                  f"{what}: the terms of every factored variant are marked as factored and removed from the pool",
+                  f"{what}: factored_terms={sorted(factored)}, removed from the pool={sorted(pool.used)}, expected {sorted(used)} (+ the "
+                  "previously factored term 90): a term that is not marked is added to the result a second time by the caller",
+                  key=f"{what} pairing")
+        ctx.check(rule, fn, flag is bool(want), f"{what}: success flag {bool(want)}", f"{what}: success flag {flag!r}", key=f"{what} flag")
+        ctx.check(rule, fn, ("wrong getter",) not in pool.log, f"{what}: only complete variants", f"{what}: asks for mixed-prefactor variants",
+                  key=f"{what} getter")
+
+
+def r11b_mixed(ctx):
+    rule = "R11b"
+    fn = ctx.model.fn(FI + "_factor_mixed_prefactors")
+    I0, I1 = tuple(mk_index(c) for c in "ia"), tuple(mk_index(c) for c in "jb")
+    R0, R1 = sym("REM0"), sym("REM1")
+    F = Fraction
+    U = {k: sym(f"UNIT{k}") for k in range(8)}
+
+    def var(prefs, terms):
+        c = {}
+        for p_ in prefs:
+            c[p_] = c.get(p_, 0) + 1
+        return dict(prefs=prefs, terms=terms, units={t: U[t] for t in terms}, counter=c)
+    tables = {
+        "nothing": {(I0, R0): []},
+        "one deviating term": {(I0, R0): [var([2, 2, 1], [0, 1, 2])]},
+        "term at two positions": {(I0, R0): [var([F(1, 2), 3, F(1, 2), F(1, 2), 3], [0, 1, 2, 3, 1])]},
+        "negative prefactors": {(I0, R0): [var([-1, 1, -1, -1], [0, 1, 2, 3])], (I1, R1): [var([F(-1, 4), F(-1, 4), F(1, 4)], [4, 5, 6])]},
+        "two in a row": {(I0, R0): [var([2, 2, 1], [0, 1, 2]), var([3, 1, 1], [3, 4, 5])], (I0, R1): [var([1, 1, 5], [2, 6, 7]), var([1, 4, 4], [6, 7, 7])]},
+    }
+    for name, queues in tables.items():
+        what = f"_factor_mixed_prefactors[{name}]"
+        r = _long_parts(ctx, fn, what, queues, "get_mixed_pref_variant", None)
+        if r is None:
+            continue
+        o, pool, factored = r
+        if o.kind != "return":
+            ctx.bad(rule, fn, f"{what}: {o.exc}: a variant is handed out again because its terms were not removed from the pool"
+                    if o.exc == "TermsUsedTwice" else f"{what} raises {o.exc}", key=f"{what} pairing")
+            continue
+        ok_shape = isinstance(o.value, tuple) and len(o.value) == 2
+        res, flag = o.value if ok_shape else (None, None)
+        splits = {}
+        for t in subterms(res) if ok_shape else ():
+            if t.op == "mcall" and t.args[1] == "canonicalize_sign":
+                src = unwrap(t)
+                if is_canonical_split(t, src):
+                    splits.setdefault(src, t)
+        used, want = set(), [sym("RESULT")]
+        missing_split = None
+        for (idx, rem), vs in queues.items():
+            for v in vs:
+                if any(t in used for t in v["terms"]):
+                    continue
+                used |= set(v["terms"])
+                mc = max(v["counter"].items(), key=lambda kv: kv[1])[0]
+                done = set()
+                for p_, t in zip(v["prefs"], v["terms"]):
+                    if p_ == mc or t in done:
+                        continue
+                    done.add(t)
+                    term = splits.get(sym(f"t{t}"))
+                    if term is None:
+                        missing_split = t
+                        continue
+                    # a + 2b + c = z - ...: the term keeps (its prefactor - prefactor it needs inside the intermediate)
+                    want.append(t_mul(t_add(T("attr", term, "pref"), t_mul(-1, mc, v["units"][t])), T("attr", term, "num"), T("attr", term, "eri"),
+                                      t_pow(T("attr", term, "denom"), -1)))
+                want.append(T("call", "_build_factored_term", (), (("remainder", rem), ("pref", mc), ("itmd_cls", sym("itmd_cls")),
+                                                                      ("itmd_indices", tuple(x.term for x in idx)))))
+        got = keyset(res) if ok_shape else None
+        exp = keyset(t_add(*want))
+        ctx.check(rule, fn, ok_shape and missing_split is None and got == exp,
+                  f"{what}: result + intermediate with the most common prefactor + (pref - common pref * unit pref) * term for every deviating term once",
+                  f"{what}: returns {show(res)[:500]}, expected {show(t_add(*want))[:500]}"
+                  + (f" (term {missing_split} is not completed from its sign-canonical split)" if missing_split is not None else ""),
+                  key=f"{what} completion")
+        ctx.check(rule, fn, factored == {90} | used and pool.used == used,
+                  f"{what}: the terms of every factored variant are marked as factored and removed from the pool",
+                  f"{what}: factored_terms={sorted(factored)}, removed from the pool={sorted(pool.used)}, expected {sorted(used)} (+ 90)",
+                  key=f"{what} pairing")
+        ctx.check(rule, fn, flag is (len(want) > 1), f"{what}: success flag", f"{what}: success flag {flag!r}", key=f"{what} flag")
+        ctx.check(rule, fn, ("wrong getter",) not in pool.log, f"{what}: only mixed-prefactor variants", f"{what}: asks for complete variants",
+                  key=f"{what} getter")
+
+
+def keyset(t):
+    """multiset of the distributed products of a term (commutative)"""
+    from ..terms import product_key, multiset
+    return multiset(product_key(c, fs, lambda f: True) for c, fs in expand_products(t))
+
+
+def r11b_long(ctx):
+    """_factor_long_intermediate: (1) every match that enters the pool carries prefactor = term.pref * factor /
+    (n * itmd_term.pref) and unit prefactor = itmd_term.pref * factor * n (n = number of itmd terms the match spreads to,
+    factor = variant factor * sign of the index-minimised tensor), remainder and indices of the same variant;
+    (2) the result is what _factor_complete/_factor_mixed_prefactors return plus every term they did not consume, once."""
+    rule = "R11b"
+    fn = ctx.model.fn(FI + "_factor_long_intermediate")
+    D = tuple(mk_index(c) for c in "ijab")
+    MIN = tuple(mk_index(c) for c in "klcd")
+    # term -> itmd term -> variants (eri_i, denom_i, sub, factor); term 1 is no candidate at all, term 3 has no denominator
+    table = {
+        0: {0: [((0,), (0,), {"i": "m", "j": "n"}, "F00a"), ((1,), (0,), {"i": "m", "j": "n"}, "F00b"), ((1,), (1,), {"i": "n", "j": "m"}, "F00c")],
+            1: [((0, 1), (1,), {"a": "e"}, "F01")]},
+        2: {0: None, 1: [((2,), (0, 0), {"b": "f"}, "F21")]},
+        3: {0: [((0,), (), {}, "F30")], 1: [((0,), (), {}, "F31")]},
+    }
+    spread = {(0, 0): {0, 1}, (0, 1): {1}, (2, 1): {1, 0}, (3, 0): {0}, (3, 1): {1}}
+    consumed = {"complete": [0], "mixed": [2]}
+    for with_sign, dup in ((True, False), (False, True)):
+        st = {}
+
+        def eri_orbenergy(sx, a, kw):
+            x = a[0] if a else kw.get("term")
+            k = int(str(x.args[0])[1:])
+            can = Obj(None, f"TERM{k}", pref=sym(f"t{k}.pref"), eri=Obj(None, f"t{k}.eri", target=(mk_index("x"), mk_index("y"))), src=k)
+            raw = Obj(None, f"split(t{k})")
+            raw.attrs["canonicalize_sign"] = lambda sx_, a_, kw_: can
+            return raw
+
+        def term_data(sx, a, kw):
+            t = a[0] if a else kw.get("term")
+            k = t.attrs["src"]
+            return Obj(None, f"DATA{k}", eri_obj_descriptions={"V": 0 if k == 1 else 2, "f": 1},
+                       denom_bracket_lengths=None if k == 3 else {4: 2}, src=k)
+
+        def compare_terms(sx, a, kw):
+            b = dict(zip(("term", "itmd_term", "term_data", "itmd_term_data"), a))
+            b.update(kw)
+            k, i = b["term"].attrs["src"], b["itmd_term"].attrs["pos"]
+            okd = isinstance(b.get("term_data"), Obj) and b["term_data"].attrs.get("src") == k and \
+                isinstance(b.get("itmd_term_data"), Obj) and b["itmd_term_data"].attrs.get("pos") == i
+            st["compared"].append((k, i, okd))
+            vs = table.get(k, {}).get(i)
+            if vs is None:
+                return None
+            return [dict(_variant(e_i, d_i, sub, sym(f)), _id=(k, i, n_v)) for n_v, (e_i, d_i, sub, f) in enumerate(vs)]
+
+        def minimize(sx, a, kw):
+            idx = kw.get("tensor_indices", a[0] if a else None)
+            st["minimized"].append(tuple(nm(x) for x in idx))
+            return tuple(mk_index(nm(x) + "1") if len(nm(x)) == 1 else x for x in idx), (sym("PERM"),)
+
+        def tensor(sx, a, kw):
+            if kw.get("return_sympy") or (len(a) > 1 and a[1]):
+                return Obj("sympy_objects:NonSymmetricTensor", "TENSOR")
+            idx = tuple(kw.get("indices", a[0] if a else ()))
+            objs = [Obj(None, "tensor_obj", base=Obj("sympy_objects:AntiSymmetricTensor", "tensor_base"), idx=tuple(reversed(idx)),
+                        sympy=Obj(None, "tensor_obj.sympy", is_number=False))]
+            if with_sign:
+                objs.insert(0, Obj(None, "sign_obj", base=Obj(None, "sign_base", _classes=()), sympy=Obj(None, "TSIGN", is_number=True)))
+            t = Obj(None, "tensor_term", objects=objs, _len=len(objs))
+            return Obj(None, "tensor_expr", terms=[t])
+
+        def compare_remainder(sx, a, kw):
+            b = dict(zip(("remainder", "ref_remainder", "itmd_indices"), a))
+            b.update(kw)
+            st["rem_compared"] += 1
+            return 1 if dup else None
+
+        def map_on_other(sx, a, kw):
+            b = dict(zip(("itmd_i", "remainder", "itmd_term_map", "itmd_indices", "itmd_default_idx"), a))
+            b.update(kw)
+            gr = [c for c in subterms(b["remainder"]) if c.op == "call" and c.args[0] == "_get_remainder"]
+            k = int(nm(args_of(gr[0])["term"])[4:]) if gr else None
+            st["mapped"].append((k, b["itmd_i"], b["itmd_term_map"], tuple(nm(x) for x in b["itmd_indices"]),
+                                 tuple(nm(x) for x in b["itmd_default_idx"])))
+            return set(spread.get((k, b["itmd_i"]), {b["itmd_i"]}))
+
+        def variants_cls(sx, a, kw):
+            st["pool_size"] = a[0] if a else kw.get("n_itmd_terms")
+            pool = Obj(None, "POOL")
+            pool.attrs["add"] = lambda sx_, a_, kw_: st["adds"].append((tuple(a_), dict(kw_)))
+            return pool
+
+        def part(tag):
+            def f(sx, a, kw):
+                b = dict(zip(("result", "terms", "itmd_cls", "factored_terms", "intermediate_variants"), a))
+                b.update(kw)
+                st["parts"].append((tag, isinstance(b["intermediate_variants"], Obj) and b["intermediate_variants"].name == "POOL",
+                                    [nm(x) for x in b["terms"]], nm(b["itmd_cls"]), set(b["factored_terms"])))
+                b["factored_terms"].update(consumed[tag])
+                return t_add(b["result"], sym(tag.upper())), tag == "complete"
+            return f
+
+        def args():
+            st.update(compared=[], minimized=[], adds=[], parts=[], mapped=[], rem_compared=0)
+            itmd = [Obj(None, f"itmd{i}", expr=Obj(None, f"itmd{i}.expr", idx=D), pref=sym(f"itmd{i}.pref"), pos=i) for i in range(2)]
+            data = tuple(Obj(None, f"itmd_data{i}", eri_obj_descriptions={"V": 1 + i}, denom_bracket_lengths={4: 1} if i == 0 else None, pos=i)
+                         for i in range(2))
+            cls = Obj(None, "itmd_cls", default_idx=tuple("ijab"), tensor=tensor)
+            return dict(expr=_abstract_expr("expr", [sym(f"t{k}") for k in range(4)]), itmd=itmd, itmd_data=data, itmd_term_map=sym("TERM_MAP"),
+                        itmd_cls=cls)
+        hooks = {"get_symbols": get_symbols_model, "EriOrbenergy": eri_orbenergy, "FactorizationTermData": term_data,
+                 "_compare_terms": compare_terms, "minimize_tensor_indices": minimize, "_compare_remainder": compare_remainder,
+                 "_map_on_other_terms": map_on_other, "LongItmdVariants": variants_cls, "_factor_complete": part("complete"),
+                 "_factor_mixed_prefactors": part("mixed"),
+                 "len": lambda sx_, a_, kw_: a_[0].attrs["_len"] if len(a_) == 1 and isinstance(a_[0], Obj) and "_len" in a_[0].attrs else NotImplemented}
+        sx = Symex(ctx.model, inline=factor_inline, hooks=hooks, what="_factor_long_intermediate", max_paths=256)
+        outs = sx.run(fn, args)
+        tag = "signed tensor" if with_sign else "duplicate remainders"
+        what = f"_factor_long_intermediate[{tag}]"
+        if len(outs) != 1 or outs[0].kind != "return":
+            ctx.bad(rule, fn, f"{what}: {outs[:3]}", key=f"long shape {tag}")
+            continue
+        # (2) conservation
+        parts = sorted(map(repr, split_sum(unwrap(outs[0].value))))
+        left = [k for k in range(4) if k not in consumed["complete"] + consumed["mixed"]]
+        want = sorted(map(repr, [sym("COMPLETE"), sym("MIXED")] + [sym(f"t{k}") for k in left]))
+        ctx.check(rule, fn, parts == want, f"{what}: result = factored parts + every term not consumed by a factorisation, once",
+                  f"{what}: the result consists of {parts}, expected {want} (terms {consumed} are consumed by the factorisations): a term "
+                  "that took part in no factorisation must be added unchanged at the end", key=f"long tail {tag}")
+        okp = [p_[0] for p_ in st["parts"]] == ["complete", "mixed"] and all(p_[1] and p_[2] == [f"t{k}" for k in range(4)] and p_[3] == "itmd_cls"
+                                                                             for p_ in st["parts"]) and \
+            st["parts"][0][4] == set() and st["parts"][1][4] == set(consumed["complete"])
+        ctx.check(rule, fn, okp, f"{what}: complete variants first, then mixed prefactors, on the same pool, terms and bookkeeping set",
+                  f"{what}: factorisation passes called as {st['parts']}", key=f"long passes {tag}")
+        # (1) the matches
+        exp = []
+        candidates = [(k, i) for k in range(4) for i in range(2) if k != 1 and not (k == 3 and i == 0)]
+        for k, i in candidates:
+            seen_idx = set()
+            for n_v, v in enumerate(table.get(k, {}).get(i) or ()):
+                key_ = tuple(v[2].get(c, c) for c in "ijab")
+                if dup and key_ in seen_idx:
+                    continue
+                seen_idx.add(key_)
+                exp.append((k, i, n_v, v))
+        ok_n = len(st["adds"]) == len(exp)
+        why = None if ok_n else f"{len(st['adds'])} matches enter the pool, expected {len(exp)}"
+        for (a_, kw_), (k, i, n_v, (e_i, d_i, sub, f)) in zip(st["adds"], exp):
+            if why:
+                break
+            b = dict(zip(("term_i", "itmd_indices", "remainder", "matching_itmd_terms", "prefactor", "unit_factorization_pref"), a_))
+            b.update(kw_)
+            M = spread.get((k, i), {i})
+            fac = t_mul(sym(f), sym("TSIGN")) if with_sign else sym(f)
+            want_p = t_mul(sym(f"t{k}.pref"), fac, Fraction(1, len(M)), t_pow(sym(f"itmd{i}.pref"), -1))
+            want_u = t_mul(sym(f"itmd{i}.pref"), fac, len(M))
+            img = tuple((sub.get(c, c)) for c in "ijab")
+            want_idx = tuple(reversed(tuple(x + "1" if len(x) == 1 else x for x in img)))
+            rem = b.get("remainder")
+            gr = [c for c in subterms(rem) if c.op == "call" and c.args[0] == "_get_remainder"] if isinstance(rem, T) else []
+            if b.get("term_i") != k:
+                why = f"match of term {k} filed under term {b.get('term_i')}"
+            elif set(b.get("matching_itmd_terms", ())) != M:
+                why = f"match ({k},{i}) spreads to {b.get('matching_itmd_terms')}, the term map gives {M}"
+            elif not same_product(b.get("prefactor"), want_p):
+                why = (f"match (term {k}, itmd term {i}): prefactor {show(b.get('prefactor'))[:200]}, expected term.pref * factor / "
+                       f"(n * itmd_term.pref) = {show(want_p)[:200]}")
+            elif not same_product(b.get("unit_factorization_pref"), want_u):
+                why = (f"match (term {k}, itmd term {i}): unit factorisation prefactor {show(b.get('unit_factorization_pref'))[:200]}, "
+                       f"expected itmd_term.pref * factor * n = {show(want_u)[:200]}")
+            elif tuple(nm(x) for x in b.get("itmd_indices", ())) != want_idx:
+                why = f"match ({k},{i}): itmd indices {tuple(nm(x) for x in b.get('itmd_indices', ()))}, expected {want_idx}"
+            elif len(gr) != 1 or nm(args_of(gr[0])["term"]) != f"TERM{k}" or tuple(args_of(gr[0])["obj_i"]) != tuple(e_i) or \
+                    tuple(args_of(gr[0])["denom_i"]) != tuple(d_i):
+                why = f"match ({k},{i}): remainder {show(rem)[:200]} is not the remainder of variant {n_v}"
+            elif not (rem.op == "mcall" and rem.args[1] == "permute" and rem.args[2] == (sym("PERM"),)):
+                why = f"match ({k},{i}): remainder {show(rem)[:200]} is not permuted like the minimised itmd indices"
+        ctx.check(rule, fn, why is None, f"{what}: {len(exp)} matches with prefactor, unit prefactor, indices and remainder of their own variant",
+                  f"{what}: {why}", key=f"long pref {tag}")
+        okc = all(c[2] for c in st["compared"]) and [(c[0], c[1]) for c in st["compared"]] == candidates
+        ctx.check(rule, fn, okc, f"{what}: only candidates that pass the prescan are compared, each with its own data",
+                  f"{what}: compared (term, itmd term, own data) {st['compared']}", key=f"long candidates {tag}")
+        okm = all(m_[2] == sym("TERM_MAP") and m_[4] == tuple("ijab") for m_ in st["mapped"]) and st.get("pool_size") == 2
+        ctx.check(rule, fn, okm, f"{what}: spreading looked up in the term map of the intermediate on its default indices",
+                  f"{what}: _map_on_other_terms called as {st['mapped']}, pool for {st.get('pool_size')} itmd terms", key=f"long map {tag}")
+    # a number is returned unchanged
+    sx = Symex(ctx.model, inline=factor_inline, what="_factor_long_intermediate number")
+    outs = sx.run(fn, lambda: dict(expr=_abstract_expr("expr", [], is_number=True), itmd=[], itmd_data=(), itmd_term_map=None, itmd_cls=sym("C")))
+    ctx.check(rule, fn, len(outs) == 1 and outs[0].kind == "return" and isinstance(outs[0].value, Obj) and outs[0].value.name == "expr",
+              "_factor_long_intermediate: a number is returned unchanged", f"_factor_long_intermediate of a number: {outs[:2]}", key="long number")
+
+
+def r11b_split(ctx):
+    """RegisteredIntermediate.factor_itmd: the terms are split into candidates and the rest, the candidates go through the
+    short / long factorisation (with the definition prepared for the already factored intermediates), the rest is added
+    back; nothing to do -> the expression comes back unchanged"""
+    rule = "R11b"
+    fn = ctx.model.fn(IT + "factor_itmd")
+    # (order, has an orbital energy denominator)
+    term_specs = [(1, True), (2, False), (2, True), (3, True), (0, False)]
+
+    def mk_terms():
+        out = []
+        for k, (order, denom) in enumerate(term_specs):
+            objs = [Obj(None, f"t{k}.obj0", exponent=1, contains_only_orb_energies=False)]
+            if denom:
+                objs.append(Obj(None, f"t{k}.obj1", exponent=-1, contains_only_orb_energies=True))
+                objs.append(Obj(None, f"t{k}.obj2", exponent=-1, contains_only_orb_energies=False))
+            out.append(Obj(None, f"t{k}", order=order, objects=objs, sympy=T("attr", sym(f"t{k}"), "sympy")))
+        return out
+
+    def scenario(itype, order, n_itmd_terms, factored=("t2_1",), max_order=None, name="x9_9", is_number=False, real=True, is_expr=True):
+        st = {"prepared": []}
+
+        def prepare(sx, a, kw):
+            st["prepared"].append(kw.get("factored_itmds", a[0] if a else None))
+            return Obj(None, "itmd_expr", terms=[sym(f"i{j}") for j in range(n_itmd_terms)])
+
+        def args():
+            st["prepared"] = []
+            expanded = _abstract_expr("expanded", mk_terms())
+            expr = rec("expr_container:Expr" if is_expr else None, "expr", real=real, sympy=Obj(None, "expr.sympy", is_number=is_number),
+                       expand=lambda sx_, a_, kw_: expanded, **({} if is_expr else {"_classes": ()}))
+            me = rec("intermediates:RegisteredIntermediate", "self", name=name, _order=order, _itmd_type=itype, _prepare_itmd=prepare,
+                     itmd_term_map=lambda sx_, a_, kw_: T("call", "TERM_MAP", (tuple(kw_.get("factored_itmds", a_[0] if a_ else ())),), ()))
+            return dict(self=me, expr=expr, factored_itmds=factored, max_order=max_order)
+        sx = Symex(ctx.model, inline=factor_inline, what="RegisteredIntermediate.factor_itmd", max_paths=64)
+        return sx.run(fn, args), st
+
+    def through(v, n_itmd_terms, problems):
+        """the argument of the (value preserving) factorisation calls, their other arguments checked"""
+        depth = 0
+        while isinstance(v, T) and v.op == "call" and v.args[0] in ("_factor_short_intermediate", "_factor_long_intermediate"):
+            a = args_of(v)
+            short = v.args[0] == "_factor_short_intermediate"
+            if short != (n_itmd_terms == 1):
+                problems.append(f"{v.args[0]} used for a definition of {n_itmd_terms} term(s)")
+            itmds = [a.get("itmd")] if short else list(a.get("itmd") or ())
+            datas = [a.get("itmd_data")] if short else list(a.get("itmd_data") or ())
+            if len(itmds) != n_itmd_terms or any(not is_canonical_split(x, sym(f"i{j}")) for j, x in enumerate(itmds)):
+                problems.append(f"the intermediate handed over is {[show(x)[:80] for x in itmds]}, not the sign-canonical split terms of the prepared definition")
+            elif [args_of(d).get("term") if isinstance(d, T) and d.op == "call" and d.args[0] == "FactorizationTermData" else None
+                  for d in datas] != itmds:
+                problems.append(f"the term data {[show(d)[:80] for d in datas]} do not belong to the terms of the definition")
+            if a.get("itmd_cls") != sym("self"):
+                problems.append(f"factored for the class {show(a.get('itmd_cls'))}")
+            if not short and not (isinstance(a.get("itmd_term_map"), T) and a["itmd_term_map"].op == "call" and a["itmd_term_map"].args[0] == "TERM_MAP"):
+                problems.append(f"term map {show(a.get('itmd_term_map'))}")
+            v = a.get("expr")
+            depth += 1
+        return v, depth
+
+    n = 0
+    for itype, order, n_terms, factored in (("t_amplitude", 2, 1, ("t2_1",)), ("t_amplitude", 1, 3, ["t2_1", "t1_2"]), ("mp_density", 2, 2, None),
+                                            ("mp_density", 1, 1, ()), ("re_residual", 3, 2, ("t2_1",)), ("t_amplitude", 4, 2, ())):
+        outs, st = scenario(itype, order, n_terms, factored)
+        what = f"factor_itmd[{itype}, order {order}, {n_terms} itmd term(s)]"
+        if len(outs) != 1 or outs[0].kind != "return":
+            ctx.bad(rule, fn, f"{what}: {outs[:2]}", key=f"split shape {itype} {order} {n_terms}")
+            continue
+        relevant = [k for k, (o, d) in enumerate(term_specs) if o >= order and (d or itype != "t_amplitude")]
+        v = outs[0].value
+        if not relevant:
+            ctx.check(rule, fn, isinstance(v, Obj) and v.name in ("expr", "expanded"), f"{what}: no candidate term -> expression unchanged",
+                      f"{what}: no term qualifies but the result is {v!r}", key=f"split none {itype} {order} {n_terms}")
+            n += 1
+            continue
+        problems = []
+        inside, outside, depth = [], [], 0
+        for part in split_sum(v) if isinstance(v, T) else []:
+            inner, d = through(part, n_terms, problems)
+            if d:
+                depth = d
+                inside += [repr(x) for x in split_sum(unwrap(inner))]
+            else:
+                outside.append(repr(unwrap(part)))
+        want_in = sorted(f"t{k}" for k in relevant)
+        want_out = sorted(f"t{k}" for k in range(len(term_specs)) if k not in relevant)
+        n += 1
+        ctx.check(rule, fn, sorted(inside) == want_in and sorted(outside) == want_out and not problems,
+                  f"{what}: candidates {want_in} factored, {want_out} added back, every term once",
+                  f"{what}: terms inside the factorisation {sorted(inside)} (expected {want_in}), added back {sorted(outside)} (expected "
+                  f"{want_out}){'; ' + '; '.join(problems) if problems else ''}; result {show(v)[:300]}", key=f"split {itype} {order} {n_terms}")
+        max_present = max(o for o, _ in term_specs)
+        want_depth = 1 if n_terms == 1 else max_present // order
+        ctx.check(rule, fn, depth == want_depth, f"{what}: factorisation applied {want_depth} time(s)",
+                  f"{what}: the factorisation is applied {depth} times, expected {want_depth} (max order of the terms // order of the intermediate)",
+                  key=f"split repeats {itype} {order} {n_terms}")
+        want_f = tuple(factored or ())
+        ctx.check(rule, fn, st["prepared"] and all(isinstance(x, tuple) and x == want_f for x in st["prepared"]),
+                  f"{what}: definition prepared with the already factored intermediates {want_f}",
+                  f"{what}: _prepare_itmd called with {st['prepared']}, expected {want_f}", key=f"split prepared {itype} {order} {n_terms}")
+    ctx.floor(rule, "splits evaluated in factor_itmd", n, 5)
+    # nothing to do: decision table
+    for is_number in (False, True):
+        for name in ("x9_9", "t4_2"):
+            for factored in ((), ("x9_9",), ("t2_1",)):
+                for max_order in (None, 1, 2, 3):
+                    outs, st = scenario("mp_density", 2, 1, factored, max_order, name, is_number)
+                    skip = is_number or name in factored or name == "t4_2" or (max_order is not None and max_order < 2)
+                    unchanged = len(outs) == 1 and outs[0].kind == "return" and isinstance(outs[0].value, Obj) and outs[0].value.name == "expr"
+                    processed = len(outs) == 1 and outs[0].kind == "return" and isinstance(outs[0].value, T) and bool(st["prepared"])
+                    ctx.check(rule, fn, unchanged if skip else processed,
+                              f"factor_itmd(number={is_number}, name={name}, factored={factored}, max_order={max_order}): "
+                              f"{'unchanged' if skip else 'factored'}",
+                              f"factor_itmd(number={is_number}, name={name}, order 2, factored={factored}, max_order={max_order}) gives {outs[:2]}, "
+                              f"expected {'the unchanged expression' if skip else 'a factorisation'}", key=f"early {is_number} {name} {factored} {max_order}")
+    for tag, kw, exc in (("not an Expr", dict(is_expr=False), "TypeError"), ("complex orbitals", dict(real=False), "NotImplementedError")):
+        outs, st = scenario("mp_density", 2, 1, **kw)
+        ctx.check(rule, fn, outs and all(o.kind == "raise" and o.exc == exc for o in outs), f"factor_itmd: {tag} refused",
+                  f"factor_itmd: {tag} gives {outs[:2]}", key=f"split guard {tag}")
+
+
+def r11b_driver(ctx):
+    """factor_intermediates: the requested intermediates (filtered by max_order) are factored one after another on the running
+    expression, each being told which ones were factored before it"""
+    rule = "R11b"
+    fn = ctx.model.fn(FI + "factor_intermediates")
+    orders = {"t2_1": 1, "t1_2": 2, "p0_2_oo": 2, "t2_3": 3, "p0_3_vv": 3}
+    types = {"t_amplitude": ["t2_1", "t1_2", "t2_3"], "mp_density": ["p0_2_oo", "p0_3_vv"]}
+    for request, max_order in ((None, None), (None, 2), ("mp_density", None), (["t_amplitude", "p0_3_vv"], 2), (("t1_2", "t2_1"), None),
+                               ("t2_3", 2), ([], None)):
+        st = {"calls": []}
+
+        def intermediates(sx, a, kw):
+            def itmd(name):
+                def factor_itmd(sx_, a_, kw_):
+                    b = dict(zip(("expr", "factored_itmds", "max_order"), a_))
+                    b.update(kw_)
+                    st["calls"].append((name, b["expr"], tuple(b.get("factored_itmds") or ()), b.get("max_order")))
+                    return T("call", f"FACTOR[{name}]", (b["expr"].term if isinstance(b["expr"], Obj) else b["expr"],), ())
+                return rec(None, name, order=orders[name], factor_itmd=factor_itmd, name=name)
+            objs = {n_: itmd(n_) for n_ in orders}
+            o = Obj(None, "Intermediates()", available=dict(objs))
+            for t_, ns in types.items():
+                o.attrs[t_] = {n_: objs[n_] for n_ in ns}
+            for n_ in orders:
+                o.attrs[n_] = {n_: objs[n_]}
+            return o
+
+        def args():
+            st["calls"] = []
+            expr = rec("expr_container:Expr", "expr", sympy=Obj(None, "expr.sympy", is_number=False), terms=[],
+                       substitute_contracted=lambda sx_, a_, kw_: T("mcall", sym("expr"), "substitute_contracted", (), ()))
+            return dict(expr=expr, types_or_names=request, max_order=max_order)
+        sx = Symex(ctx.model, inline=lambda q: q.split(":")[-1].split(".")[-1] not in ("EriOrbenergy",),
+                   hooks={"Intermediates": intermediates, "perf_counter": lambda sx_, a_, kw_: 0,
+                          "len": lambda sx_, a_, kw_: 0 if len(a_) == 1 and isinstance(a_[0], (T, Obj)) else NotImplemented},
+                   what="factor_intermediates", max_paths=64)
+        outs = sx.run(fn, args)
+        if request is None:
+            names = list(orders)
+        else:
+            names = []
+            for r in ([request] if isinstance(request, str) else request):
+                names += [n_ for n_ in (types.get(r) or [r]) if n_ not in names]
+        if max_order is not None:
+            names = [n_ for n_ in names if orders[n_] <= max_order]
+        what = f"factor_intermediates({request}, max_order={max_order})"
+        if len(outs) != 1 or outs[0].kind != "return":
+            ctx.bad(rule, fn, f"{what}: {outs[:2]}", key=f"driver shape {request} {max_order}")
+            continue
+        running = sym("expr")
+        want_calls = []
+        for k, n_ in enumerate(names):
+            want_calls.append((n_, running, tuple(names[:k]), max_order))
+            running = T("call", f"FACTOR[{n_}]", (running,), ())
+        got_calls = [(c[0], c[1].term if isinstance(c[1], Obj) else c[1], c[2], c[3]) for c in st["calls"]]
+        ctx.check(rule, fn, got_calls == want_calls, f"{what}: {names} factored one after another on the running expression",
+                  f"{what}: factor_itmd calls (name, expression, factored before, max_order) {[(c[0], show(c[1])[:60], c[2], c[3]) for c in got_calls]}, "
+                  f"expected {[(c[0], show(c[1])[:60], c[2], c[3]) for c in want_calls]}", key=f"driver {request} {max_order}")
+        v = outs[0].value
+        ok = isinstance(v, T) and v.op == "mcall" and v.args[1] == "substitute_contracted" and v.args[0] == running
+        ctx.check(rule, fn, ok, f"{what}: the last factored expression is returned (contracted indices minimised)",
+                  f"{what}: returns {show(v)[:200]}, expected {show(running)[:200]}.substitute_contracted()", key=f"driver result {request} {max_order}")
+    sx = Symex(ctx.model, inline=lambda q: True, what="factor_intermediates guards")
+    outs = sx.run(fn, lambda: dict(expr=rec("expr_container:Expr", "expr", sympy=Obj(None, "expr.sympy", is_number=True)), types_or_names=None,
+                                   max_order=None))
+    ctx.check(rule, fn, len(outs) == 1 and outs[0].kind == "return" and isinstance(outs[0].value, Obj), "factor_intermediates: a number comes back unchanged",
+              f"factor_intermediates of a number: {outs[:2]}", key="driver number")
+    outs = sx.run(fn, lambda: dict(expr=Obj(None, "expr", _classes=()), types_or_names=None, max_order=None))
+    ctx.check(rule, fn, outs and all(o.kind == "raise" for o in outs), "factor_intermediates: something that is no Expr refused",
+              f"factor_intermediates of a non-Expr: {outs[:2]}", key="driver guard")
 
 
 def r11b(ctx):
-    rule = "R11b"
-    # t2_1.factor_itmd
-    fn = ctx.model.fn("intermediates:t2_1.factor_itmd")
-    lp = [n for n in walk_fn(fn) if isinstance(n, ast.For) and U(n.iter) == "expr.terms"]
-    ctx.floor(rule, "term loop in t2_1.factor_itmd", len(lp), 1)
+    for f in (r11b_t2_1, r11b_short, r11b_long, r11b_complete, r11b_mixed, r11b_split, r11b_driver):
+        f(ctx)
 
-    def ev(acc):
-        def is_event(n):
-            return isinstance(n, ast.AugAssign) and isinstance(n.op, ast.Add) and U(n.target) == acc
-        return is_event
-    acc, drops = common.loop_conservation(ctx, rule, fn, lp[0], U(lp[0].target), is_event=ev("factored"))
-    common.lost(ctx, rule, lp[0], U(lp[0].target), drops)
-    ft = [n for n in walk_fn(fn) if isinstance(n, ast.AugAssign) and U(n.target) == "factored_term"]
-    vals = sorted(U(n.value).replace(" ", "").replace("\n", "") for n in ft)
-    ctx.check(rule, fn, vals == ["Pow(self.tensor(indices=eri.idx,return_sympy=True)/t2.pref,min_exp)", "term.pref*eri*term.num/denom"],
-              "factored term = (t2/pref)^n * pref * remaining eri * num / remaining denom", f"factored term assembled from {vals}", key="t2_1 assembly")
-    a = {U(x.targets[0]): U(x.value) for x in walk_fn(fn) if isinstance(x, ast.Assign)}
-    ctx.check(rule, fn, a.get("min_exp") == "min(eri_exp, bk_exponent)" and a.get("denom") == "term.cancel_denom_brackets(denom_brackets_to_remove)"
-              and a.get("eri") == "term.cancel_eri_objects(eri_obj_to_remove)", "integral and bracket removed equally often",
-              "removal bookkeeping of t2_1 changed", key="t2_1 removal")
-    ex = sorted(U(c.args[0]) for c in calls_in(fn) if call_name(c) == "extend")
-    ctx.check(rule, fn, ex == ["(bk_idx for _ in range(min_exp))", "(eri_idx for _ in range(min_exp))"], "both removed min_exp times",
-              f"{ex}", key="t2_1 multiplicity")
-    mt = [n for n in walk_fn(fn) if isinstance(n, ast.If) and U(n.test) == "bk == sub_t2_denom"]
-    ctx.check(rule, fn, len(mt) == 1, "bracket must equal the substituted t2 denominator", "denominator comparison changed", key="t2_1 denom match")
-    # _factor_short_intermediate
-    fs = ctx.model.fn(FI + "_factor_short_intermediate")
-    lp = [n for n in walk_fn(fs) if isinstance(n, ast.For) and U(n.iter) == "terms"]
-    ctx.floor(rule, "term loop in _factor_short_intermediate", len(lp), 1)
-    acc, drops = common.loop_conservation(ctx, rule, fs, lp[0], U(lp[0].target), is_event=ev("factored"))
-    common.lost(ctx, rule, lp[0], U(lp[0].target), drops)
-    adds = sorted({U(n.value) for n in walk_fn(lp[0]) if isinstance(n, ast.AugAssign) and U(n.target) == "factored"})
-    ctx.check(rule, fs, adds == ["factored_term", "term.expr"], "either the unchanged term or the factored term is added", f"adds {adds}",
-              key="short adds")
-    a = {U(x.targets[0]): U(x.value).replace("\n", "").replace(" ", "") for x in walk_fn(fs) if isinstance(x, ast.Assign)}
-    ctx.check(rule, fs, a.get("pref") == "term.pref*variant_data['factor']/itmd.pref", "prefactor = term pref * factor / itmd pref",
-              f"short prefactor {a.get('pref')}", key="short pref")
-    ctx.check(rule, fs, a.get("factored_term") == "_build_factored_term(remainder,pref,itmd_cls,itmd_indices)", "factored term from remainder, pref, tensor",
-              "short assembly changed", key="short assembly")
-    ctx.check(rule, fs, a.get("itmd_indices") == "tuple((variant_data['sub'].get(s,s)forsinget_symbols(itmd_cls.default_idx)))",
-              "intermediate indices = images of the default indices", "short itmd indices changed", key="short indices")
-    # _factor_long_intermediate
-    fl = ctx.model.fn(FI + "_factor_long_intermediate")
-    tail = [n for n in walk_fn(fl) if isinstance(n, ast.For) and U(n.iter) == "enumerate(terms)" and any(
-        isinstance(s, ast.If) and U(s.test) == "term_i not in factored_terms" for s in n.body)]
-    ok = len(tail) == 1 and [U(s) for s in tail[0].body[0].body] == ["factored_terms.add(term_i)", "result += term"]
-    ctx.check(rule, fl, ok, "terms not involved in a factorisation are added unchanged at the end", "tail loop changed", key="long tail")
-    asr = [n for n in walk_fn(fl) if isinstance(n, ast.Assert) and U(n.test) == "len(factored_terms) == len(terms)"]
-    ctx.check(rule, fl, len(asr) == 1, "every term accounted for", "accounting assertion removed", key="long assert")
-    a = {U(x.targets[0]): U(x.value).replace("\n", "").replace(" ", "") for x in walk_fn(fl) if isinstance(x, ast.Assign)}
-    ctx.check(rule, fl, a.get("prefactor") == "term.pref*variant_data['factor']*Rational(1,len(matching_itmd_terms))/itmd[itmd_i].pref",
-              "prefactor normalised over the itmd terms the match spreads to", f"long prefactor {a.get('prefactor')}", key="long pref")
-    ctx.check(rule, fl, a.get("unit_factorization_pref") == "itmd[itmd_i].pref*variant_data['factor']*len(matching_itmd_terms)",
-              "unit factorisation prefactor", f"{a.get('unit_factorization_pref')}", key="long unit")
-    for name in ("_factor_complete", "_factor_mixed_prefactors"):
-        f = ctx.model.fn(FI + name)
-        up = [c for c in calls_in(f) if call_name(c) == "update" and U(c.func.value) == "factored_terms"]
-        ok = len(up) == 1 and U(up[0].args[0]) == "term_list"
-        blk = enclosing_stmt(up[0])._parent.body if up else []
-        texts = [U(s) for s in blk]
-        ok = ok and "result += new_term" in texts and "intermediate_variants.remove_used_terms(term_list)" in texts
-        ctx.check(rule, f, ok, f"{name}: used terms marked exactly when the factored term is added", f"{name}: bookkeeping changed", key=f"{name} pairing")
-        nt = [x for x in walk_fn(f) if isinstance(x, ast.Assign) and U(x.targets[0]) == "new_term"]
-        want = "_build_factored_term(rem, pref, itmd_cls, itmd_indices)" if name == "_factor_complete" else \
-            "_build_factored_term(rem, most_common_pref, itmd_cls, itmd_indices)"
-        ctx.check(rule, f, len(nt) == 1 and " ".join(U(nt[0].value).split()) == want, f"{name}: factored term from remainder and prefactor",
-                  f"{name}: new term `{U(nt[0].value) if nt else None}`", key=f"{name} new term")
-    fm = ctx.model.fn(FI + "_factor_mixed_prefactors")
-    a = {U(x.targets[0]): U(x.value).replace(" ", "") for x in walk_fn(fm) if isinstance(x, ast.Assign)}
-    ctx.check(rule, fm, a.get("desired_pref") == "most_common_pref*unit_factors[term_i]" and a.get("extension_pref") == "term.pref-desired_pref"
-              and a.get("term") in ("extension_pref*term.num*term.eri/term.denom",),
-              "completion term = (pref - desired pref) * term", f"completion: {a.get('desired_pref')}, {a.get('extension_pref')}, {a.get('term')}",
-              key="mixed completion")
-    sk = [n for n in walk_fn(fm) if isinstance(n, ast.Continue)]
-    ctx.check(rule, fm, len(sk) == 1 and U(sk[0]._parent.test) == "p == most_common_pref or term_i in terms_to_add",
-              "only terms with a different prefactor are completed, once", "selection of terms to complete changed", key="mixed selection")
-    # factor_itmd split
-    fi = ctx.model.fn(IT + "factor_itmd")
-    sp = [n for n in walk_fn(fi) if isinstance(n, ast.For) and U(n.iter) == "zip(terms, term_is_relevant)"]
-    ok = len(sp) == 1 and U(sp[0].body[0]) == "if is_relevant:\n    to_factor += term\nelse:\n    remainder += term.sympy"
-    ctx.check(rule, fi, ok, "every term goes either to the part to factor or to the remainder", "relevant/irrelevant split changed", key="split")
-    fin = sorted(U(x) for x in walk_fn(fi) if isinstance(x, (ast.Assign, ast.AugAssign)) and "remainder" in U(x) and "factored" in U(x))
-    ctx.check(rule, fi, fin == ["factored += remainder", "factored = to_factor + remainder"], "remainder added back in both branches",
-              f"recombination {fin}", key="recombine")
-    early = [U(r.value) for r in common.returns_of(fi)]
-    ctx.check(rule, fi, early == ["expr", "expr", "factored"], "nothing to factor: expression unchanged", f"returns {early}", key="early")
-    top = ctx.model.fn(FI + "factor_intermediates")
-    lp = [n for n in walk_fn(top) if isinstance(n, ast.For) and U(n.iter) == "itmd_to_factor.items()"]
-    ok = len(lp) == 1 and any(U(s) == "expr = itmd_cls.factor_itmd(expr, factored, max_order)" for s in lp[0].body) \
-        and any(U(s) == "factored.append(name)" for s in lp[0].body)
-    ctx.check(rule, top, ok, "intermediates factored one after another on the running expression", "driver loop changed", key="driver")
-    flt = [x for x in walk_fn(top) if isinstance(x, ast.Assign) and isinstance(x.value, ast.DictComp)]
-    ctx.check(rule, top, len(flt) == 1 and [U(i) for i in flt[0].value.generators[0].ifs] == ["itmd_cls.order <= max_order"],
-              "max_order filter", "max_order filter changed", key="max order")
+
+def _tensor_provider(names):
+    """abstract intermediate class: ``tensor(...)`` hands out a tensor record and logs how it was requested"""
+    log = []
+
+    def tensor(sx, a, kw):
+        nm_ = names[len(log) % len(names)] if isinstance(names, (list, tuple)) else names
+        log.append((tuple(a), dict(kw)))
+        o = Obj(None, f"TENSOR{len(log) - 1}")
+        o.attrs.update(name=nm_)
+        return o
+    cls = Obj(None, "itmd_cls")
+    cls.attrs.update(tensor=tensor, name="t9_9")
+    return cls, log
 
 
 def r11c(ctx):
     rule = "R11c"
     fn = ctx.model.fn(FI + "_build_factored_term")
-    z = [r for r in common.returns_of(fn) if "Expr(0" in U(r.value)]
-    ok = len(z) == 1 and ("tensor.name == 'Zero'", True) in conditions(z[0])
-    ctx.check(rule, fn, ok, "zero only for the placeholder tensor named 'Zero'", "the factored term is replaced by 0 under another condition",
-              key="zero placeholder")
-    last = common.returns_of(fn)[-1]
-    ctx.check(rule, fn, sorted(U(f) for f in c13._flatten(last.value)) == ["pref", "remainder", "tensor"], "factored term = remainder * pref * tensor",
-              f"factored term `{U(last.value)}`", key="assembly")
-    t = [x for x in walk_fn(fn) if isinstance(x, ast.Assign) and U(x.targets[0]) == "tensor"]
-    ctx.check(rule, fn, len(t) == 1 and U(t[0].value) == "itmd_cls.tensor(indices=itmd_indices, return_sympy=True)",
-              "tensor of the factored intermediate on the found indices", "tensor construction changed", key="tensor")
-    reg = registry(ctx)
-    for name, info in reg.items():
-        builds_zero = info["tensor_name_literal"] == "Zero"
+    sx = Symex(ctx.model, inline=lambda q: True, what="_build_factored_term")
+    IDX = tuple(mk_index(x) for x in "ijab")
+    for name in ("Zero", "t2eri4", "t2eri_4", "Z", "Zeroo", "zero", "ZERO", "t1", "t2sq", "p2", "", sym("NAME")):
+        st = {}
+
+        def args():
+            st["cls"], st["log"] = _tensor_provider(name)
+            return dict(remainder=sym("REM"), pref=sym("PREF"), itmd_cls=st["cls"], itmd_indices=IDX)
+        outs = sx.run(fn, args)
+        for o in outs:
+            tag = show(name) if isinstance(name, T) else repr(name)
+            if o.kind != "return":
+                ctx.bad(rule, fn, f"_build_factored_term raises {o.exc} for a tensor named {tag}", key=f"raise {tag}")
+                continue
+            is_zero_name = name == "Zero" or (isinstance(name, T) and any(
+                pol and a == T("cmp", "==", *sorted(("Zero", name), key=repr)) for a, pol in o.path))
+            v = strip(o.value, calls=("Expr",))
+            if is_zero_name:
+                asm = [c for c in subterms(o.value) if c.op == "call" and c.args[0] == "Expr"]
+                ok = v == 0 and asm and any(x == T("attr", sym("REM"), "assumptions") for c in asm for x in subterms(c))
+                ctx.check(rule, fn, bool(ok), "the placeholder tensor 'Zero' resolves to 0 with the assumptions of the remainder",
+                          f"_build_factored_term for the placeholder 'Zero' returns {show(o.value)[:160]}", key=f"zero placeholder {tag}")
+            else:
+                tens = sym("TENSOR0")
+                prods = expand_products(v)
+                ok = len(prods) == 1 and prods[0][0] == 1 and sorted(map(show, prods[0][1])) == sorted(map(show, [sym("REM"), sym("PREF"), tens]))
+                ctx.check(rule, fn, ok, f"tensor named {tag}: factored term = remainder * pref * tensor",
+                          f"_build_factored_term for a tensor named {tag} returns {show(o.value)[:160]} on the path {o.path!r}; only the "
+                          "placeholder 'Zero' of the residuals may be resolved to 0, everything else is remainder * pref * tensor",
+                          key=f"assembly {tag}" if v != 0 else f"zero placeholder {tag}")
+            lg = st["log"]
+            okt = len(lg) >= 1 and all(tuple(k.get("indices", a[0] if a else ())) == IDX and k.get("return_sympy", a[1] if len(a) > 1 else False) is True
+                                       for a, k in lg)
+            ctx.check(rule, fn, okt, "tensor of the factored intermediate on the found indices",
+                      f"_build_factored_term requests the tensor as {lg}", key=f"tensor {tag}")
+    tab = tensor_table(ctx)
+    for name, info in tab.items():
+        builds_zero = info["tensor_name"] == "Zero"
         ctx.check(rule, info["cls"], builds_zero == (info["itmd_type"] == "re_residual"),
                   f"{name}: {'builds' if builds_zero else 'does not build'} the Zero placeholder",
                   f"{name} (type {info['itmd_type']}) {'builds' if builds_zero else 'does not build'} the 'Zero' placeholder; only "
                   "residuals (which vanish for converged amplitudes) may be factored to 0", key=f"zero {name}")
 
 
+DEF_VOCAB = {"expand_itmd", "tensor", "get_symbols", "eri", "fock", "orb_energy", "sort_idx_canonical"}
+
+
+def _abstract_registry(classes):
+    r = {}
+    for cname, cls in classes.items():
+        at = class_attrs(cls)
+        r.setdefault(at.get("_itmd_type"), {})[cname] = Obj(f"intermediates:{cname}", cname, **at)
+    return r
+
+
+def _references(value, names):
+    """calls X.expand_itmd(...) / X.tensor(...) on registered intermediates inside an evaluated definition"""
+    out = []
+    for t in subterms(value):
+        if t.op == "mcall" and t.args[1] in ("expand_itmd", "tensor") and nm(t.args[0]) in names:
+            out.append(t)
+    return out
+
+
 def r11d(ctx):
+    """every definition, evaluated for both expansion levels: the intermediates it is built from are expanded recursively
+    (X.expand_itmd, itself fully expanding) when fully_expand is set and stay tensors (X.tensor) otherwise; both levels
+    are the same formula"""
     rule = "R11d"
-    reg = registry(ctx)
+    classes = registered_classes(ctx)
+    sx = Symex(ctx.model, inline=lambda q: q.split(":")[-1].split(".")[-1] not in DEF_VOCAB, hooks={"get_symbols": get_symbols_model},
+               what="_build_expanded_itmd", max_paths=256)
     n = 0
-    for name, info in reg.items():
-        fn = info["build"]
-        refs = {}
-        for a in walk_fn(fn):
-            if isinstance(a, (ast.Assign, ast.AnnAssign)):
-                t = a.targets[0] if isinstance(a, ast.Assign) else a.target
-                v = a.value
-                if v is not None and "self._registry[" in U(v) and isinstance(t, ast.Name):
-                    refs[t.id] = U(v)
-        for var, src in refs.items():
-            n += 1
-            rebinds = [a for a in walk_fn(fn) if isinstance(a, ast.Assign) and U(a.targets[0]) == var and "self._registry[" not in U(a.value)]
-            if info["itmd_type"] == "re_residual":
-                uses = [c for c in calls_in(fn) if isinstance(c.func, ast.Attribute) and U(c.func.value) == var]
-                ok = not rebinds and uses and all(c.func.attr == "tensor" for c in uses)
-                ctx.check(rule, fn, ok, f"{name}: residual uses {var}.tensor only", f"{name}: residual definitions must reference `{var}` "
-                          "through .tensor", fn=f"intermediates:{name}._build_expanded_itmd", key=f"{name} {var}")
+    for cname, cls in classes.items():
+        fn = ctx.model.fn(f"intermediates:{cname}._build_expanded_itmd")
+        attrs = class_attrs(cls)
+        residual = attrs.get("_itmd_type") == "re_residual"
+        exprs = {}
+        for level in (True, False):
+            outs = sx.run(fn, lambda: dict(self=Obj(f"intermediates:{cname}", "self", _registry=_abstract_registry(classes), **attrs),
+                                           fully_expand=level))
+            rets = [o for o in outs if o.kind == "return"]
+            if not rets or len(rets) != len(outs):
+                ctx.bad(rule, fn, f"{cname}._build_expanded_itmd({level}) does not return on every path: {outs[:3]}",
+                        fn=f"intermediates:{cname}._build_expanded_itmd", key=f"{cname} returns {level}")
                 continue
-            ok = False
-            if len(rebinds) == 1 and U(rebinds[0].value) == f"{var}.expand_itmd if fully_expand else {var}.tensor":
-                ok = True
-            elif len(rebinds) == 2:
-                tab = {}
-                for r in rebinds:
-                    cs = conditions(r)
-                    tab[True if ("fully_expand", True) in cs else False if ("fully_expand", False) in cs else None] = U(r.value)
-                ok = tab == {True: f"{var}.expand_itmd", False: f"{var}.tensor"}
-            ctx.check(rule, fn, ok, f"{name}: `{var}` = expand_itmd if fully_expand else tensor",
-                      f"{name}: referenced intermediate `{var}` is not bound as `{var}.expand_itmd if fully_expand else {var}.tensor` "
-                      f"({[U(r.value) for r in rebinds]}): the expansion level is ignored for it",
-                      fn=f"intermediates:{name}._build_expanded_itmd", key=f"{name} {var}")
-    ctx.floor(rule, "references to other intermediates", n, 30)
+            want = "tensor" if residual or not level else "expand_itmd"
+            refs = {}
+            for o in rets:
+                for t in _references(o.value, classes):
+                    refs.setdefault(nm(t.args[0]), set()).add((t.args[1], args_of(t).get("fully_expand")))
+            for var, uses in sorted(refs.items()):
+                n += 1
+                ok = all(m == want and (m == "tensor" or fe is True) for m, fe in uses)
+                how = sorted(f"{m}" + ("" if fe in (None, True) else f"(fully_expand={fe})") for m, fe in uses)
+                if residual:
+                    ctx.check(rule, fn, ok, f"{cname}({level}): residual uses {var}.tensor only",
+                              f"{cname}: residual definitions must reference `{var}` through .tensor, found {how} for fully_expand={level}",
+                              fn=f"intermediates:{cname}._build_expanded_itmd", key=f"{cname} {var} {level}")
+                else:
+                    ctx.check(rule, fn, ok, f"{cname}(fully_expand={level}): `{var}` enters as {var}.{want}",
+                              f"{cname}: for fully_expand={level} the referenced intermediate `{var}` enters as {how}, expected "
+                              f"{var}.{want}: the expansion level is ignored for it", fn=f"intermediates:{cname}._build_expanded_itmd",
+                              key=f"{cname} {var} {level}")
+            # the defining expression of the level (first field of base_expr), wrappers of the index minimisation removed
+            vals = []
+            for o in rets:
+                v = o.value
+                a = args_of(v) if isinstance(v, T) and v.op == "call" else {}
+                vals.append(a.get("expr", a.get(0)))
+            exprs[level] = vals
+        if residual or True not in exprs or False not in exprs:
+            continue
+
+        def norm(v):
+            def f(x):
+                if x.op == "mcall" and x.args[1] in ("expand_itmd", "tensor") and nm(x.args[0]) in classes:
+                    kw = tuple((k, val) for k, val in x.args[3] if k != "fully_expand")
+                    return T("mcall", x.args[0], "REF", x.args[2], kw)
+                return x
+            from ..terms import rebuild
+            v = strip(v, calls=("Expr",), mcalls=("substitute_contracted",), attrs=("sympy",))
+            return repr(canon(rebuild(v, f)))
+        a, b = {norm(v) for v in exprs[True]}, {norm(v) for v in exprs[False]}
+        ctx.check(rule, fn, a == b and len(a) == 1, f"{cname}: both expansion levels evaluate the same formula",
+                  f"{cname}: the definition for fully_expand=True is not the definition for fully_expand=False with every referenced "
+                  f"intermediate expanded: {sorted(a)[0][:300]} vs {sorted(b)[0][:300]}", fn=f"intermediates:{cname}._build_expanded_itmd",
+                  key=f"{cname} levels")
+    ctx.floor(rule, "references to other intermediates", n, 60)
+
+
+# ---------------------------------------------------------------------------
+# the tensors of the registered intermediates, by evaluation of _build_tensor, of the tensor constructors, of
+# <tensor>.idx and of Obj.longname (nothing is read off the source text)
+
+_TT_CACHE = {}
+SINGLETONS = ("S.Zero", "S.One", "S.NegativeOne")
+
+
+def class_attrs(cls):
+    """literal class attributes (the declared interface of a registered intermediate: _itmd_type, _order, _default_idx)"""
+    out = {}
+    for n in cls.body:
+        tgt, val = (n.target, n.value) if isinstance(n, ast.AnnAssign) else (n.targets[0], n.value) if isinstance(n, ast.Assign) else (None, None)
+        if isinstance(tgt, ast.Name) and val is not None:
+            try:
+                out[tgt.id] = ast.literal_eval(val)
+            except Exception:
+                pass
+    return out
+
+
+def registered_classes(ctx):
+    m = ctx.model.module("intermediates")
+    sx = Symex(ctx.model)
+    out = {}
+    for cname, cls in m.classes.items():
+        if cname != "RegisteredIntermediate" and "RegisteredIntermediate" in sx._bases(f"intermediates:{cname}"):
+            out[cname] = cls
+    if len(out) < 5:
+        raise AnalysisError("no registered intermediates found")
+    return out
+
+
+def tensor_names_model(model, renamed=None):
+    """the TensorNames singleton (configured names; ``renamed`` models a tensor_names.json) and its dataclass fields"""
+    fields = class_attrs(model.cls("tensor_names:TensorNames"))
+    fields = {k: v for k, v in fields.items() if isinstance(v, str)}
+    vals = dict(fields)
+    vals.update(renamed or {})
+    o = Obj("tensor_names:TensorNames", "tensor_names", **vals)
+    flds = []
+    for k, v in fields.items():
+        f = Obj(None, f"field:{k}")
+        f.attrs.update(name=k, default=v)
+        flds.append(f)
+    return o, flds
+
+
+tensor_index = mk_index
+
+
+class TensorWorld:
+    """Models of the sympy primitives the tensor constructors use: sympify (numbers -> singletons, names -> symbols),
+    Tuple, the fermion sort (stable sort by the library's own key with the number of transpositions), object creation."""
+
+    def __init__(self, model, renamed=None):
+        self.model = model
+        self.made = {}
+        tn, flds = tensor_names_model(model, renamed)
+        self.hooks = {"tensor_names": tn, "fields": lambda sx, a, kw: flds, "sympify": self.sympify, "Tuple": self.tuple_,
+                      "_sort_anticommuting_fermions": self.sort_fermions, "super": self.super_, "get_symbols": get_symbols_model,
+                      "len": self.len_}
+        self.sx = Symex(model, inline=lambda q: True, hooks=self.hooks, what="tensor construction")
+        self.sx.on_start = self.start
+
+    def start(self, sx):
+        for i, a in enumerate(SINGLETONS):
+            for b in SINGLETONS[i + 1:]:
+                sx.assume(T("cmp", "is", *sorted((sym(a), sym(b)), key=repr)), False)
+
+    @staticmethod
+    def sympify(sx, a, kw):
+        x = a[0]
+        if isinstance(x, bool):
+            return x
+        if isinstance(x, int):
+            from ..symex import Ext
+            return {0: Ext("S.Zero"), 1: Ext("S.One"), -1: Ext("S.NegativeOne")}.get(x, x)
+        if isinstance(x, str):
+            o = Obj(None, f"Symbol({x})")
+            o.attrs.update(name=x)
+            return o
+        return x
+
+    @staticmethod
+    def len_(sx, a, kw):
+        if len(a) == 1 and isinstance(a[0], Obj) and isinstance(a[0].attrs.get("args"), tuple):
+            return len(a[0].attrs["args"])
+        return NotImplemented
+
+    @staticmethod
+    def tuple_(sx, a, kw):
+        o = Obj(None, "Tuple(" + ",".join(nm(x) if isinstance(x, Obj) else str(x) for x in a) + ")")
+        o.attrs.update(args=tuple(a))
+        return o
+
+    @staticmethod
+    def sort_fermions(sx, a, kw):
+        from ..symex import Raised
+        seq = list(a[0])
+        key = kw.get("key")
+        ks = [sx.call_value(key, [x], {}, None) if key is not None else x for x in seq]
+        if any(isinstance(k, T) for k in ks):
+            return NotImplemented
+        if len({repr(k) for k in ks}) != len(ks):
+            raise Raised("ViolationOfPauliPrinciple")
+        order, swaps = list(range(len(seq))), 0
+        for i in range(len(order)):
+            for j in range(len(order) - 1 - i):
+                if ks[order[j]] > ks[order[j + 1]]:
+                    order[j], order[j + 1] = order[j + 1], order[j]
+                    swaps += 1
+        return [seq[i] for i in order], swaps
+
+    def super_(self, sx, a, kw):
+        def new(sx_, args, kw_):
+            cls = args[0]
+            kind = cls.name if isinstance(cls, Obj) else str(cls)
+            o = Obj(f"sympy_objects:{kind}", f"<{kind} #{len(self.made)}>")
+            o.attrs.update(args=tuple(args[1:]), is_number=False)
+            self.made[o.name] = o
+            return o
+        o = Obj(None, "super")
+        o.attrs["__new__"] = new
+        return o
+
+    def construct(self, kind, name, groups, bks):
+        """-> (tensor record, sign) of ``kind(name, *groups[, bks])`` evaluated through the constructor"""
+        r = self.sx.find_method(f"sympy_objects:{kind}", "__new__")
+        if r is None:
+            raise AnalysisError(f"constructor of {kind} not found")
+        fn = r[0]
+        params = [a.arg for a in fn.args.args][2:]
+
+        def args():
+            d = dict(cls=Obj(f"sympy_objects:{kind}", kind), name=name)
+            for p_, g in zip(params, list(groups) + ([bks] if bks is not None else [])):
+                d[p_] = g
+            return d
+        outs = self.sx.run(fn, args)
+        if len(outs) != 1 or outs[0].kind != "return":
+            raise AnalysisError(f"construction of {kind}({name}, {groups}, {bks}) is not deterministic: {outs}")
+        v = outs[0].value
+        if isinstance(v, Obj):
+            return v, 1
+        if isinstance(v, T) and v.op == "mul" and len(v.args) == 2 and v.args[0] == -1 and nm(v.args[1]) in self.made:
+            return self.made[nm(v.args[1])], -1
+        raise AnalysisError(f"construction of {kind}({name}, ...) returns {show(v)[:120]}")
+
+    def read_idx(self, tensor):
+        kind = tensor.cls.split(":")[1]
+        r = self.sx.find_method(tensor.cls, "idx")
+        if r is None:
+            raise AnalysisError(f"{kind}.idx not found")
+        outs = self.sx.run(r[0], lambda: dict(self=tensor))
+        if len(outs) != 1 or outs[0].kind != "return" or isinstance(outs[0].value, T):
+            raise AnalysisError(f"{kind}.idx is not evaluable: {outs}")
+        return tuple(outs[0].value)
+
+    def container(self, tensor):
+        return Obj("expr_container:Obj", "obj", sympy=tensor)
+
+    def longname(self, tensor, use_default_names=True):
+        fn = self.model.fn("expr_container:Obj.longname")
+        outs = self.sx.run(fn, lambda: dict(self=self.container(tensor), use_default_names=use_default_names))
+        if len(outs) != 1:
+            raise AnalysisError(f"Obj.longname is not deterministic for {tensor}: {outs}")
+        return outs[0].value if outs[0].kind == "return" else f"<raises {outs[0].exc}>"
+
+
+def tensor_table(ctx, renamed=None):
+    key = (ctx.model.digest, repr(sorted((renamed or {}).items())))
+    if key in _TT_CACHE:
+        for mname in ("intermediates", "sympy_objects", "expr_container", "tensor_names"):
+            ctx.model.used_modules.add(mname)
+        return _TT_CACHE[key]
+    w = TensorWorld(ctx.model, renamed)
+    ctx.model.module("sympy_objects"), ctx.model.module("expr_container"), ctx.model.module("tensor_names")
+    out = {}
+    for cname, cls in registered_classes(ctx).items():
+        attrs = class_attrs(cls)
+        try:
+            itype, order, didx = attrs["_itmd_type"], attrs["_order"], tuple(attrs["_default_idx"])
+        except KeyError as e:
+            raise AnalysisError(f"{cname}: class attribute {e} not literal")
+        bt = ctx.model.fn(f"intermediates:{cname}._build_tensor")
+        outs = w.sx.run(bt, lambda: dict(self=Obj(f"intermediates:{cname}", "self", **attrs), indices=tuple(tensor_index(x) for x in didx)))
+        if len(outs) != 1 or outs[0].kind != "return" or not (isinstance(outs[0].value, T) and outs[0].value.op == "call"):
+            raise AnalysisError(f"{cname}._build_tensor does not return one tensor: {outs}")
+        a = args_of(outs[0].value)
+        kind = outs[0].value.args[0]
+        name = a.get("name")
+        if not isinstance(name, str):
+            raise AnalysisError(f"{cname}._build_tensor: tensor name is not determined by the configuration: {show(name)}")
+        given = [tuple(nm(x) for x in a[k]) for k in ("upper", "lower", "indices") if k in a]
+        if not given or any(not isinstance(x, str) for g in given for x in g):
+            raise AnalysisError(f"{cname}._build_tensor: index groups not determined: {show(outs[0].value)}")
+        bks = a.get("bra_ket_sym")
+        tensor, sign = w.construct(kind, name, [tuple(tensor_index(x) for x in g) for g in given], bks)
+        built = [tuple(nm(x) for x in g.attrs["args"]) for g in tensor.attrs["args"][1:] if isinstance(g, Obj) and "args" in g.attrs]
+        idx = tuple(nm(x) for x in w.read_idx(tensor))
+        out[cname] = {"cls": cls, "itmd_type": itype, "order": order, "default_idx": didx, "kind": kind, "tensor_name": name,
+                      "given": given, "built": built, "sign": sign, "bra_ket_sym": bks, "idx": idx,
+                      "longname": w.longname(tensor, True), "build_tensor": bt}
+    _TT_CACHE[key] = out
+    return out
+
+
+RENAMED = {"gs_amplitude": "amp", "gs_density": "rho", "eri": "W", "fock": "F"}
 
 
 def r11e(ctx):
     rule = "R11e"
-    reg = registry(ctx)
-    ctx.floor(rule, "registered intermediate classes", len(reg), 25)
-    for name, info in reg.items():
-        if info["tensor_name_literal"] == "Zero":
-            ctx.ok(rule, info["cls"], f"{name}: Zero placeholder (resolved by _build_factored_term)", fn=f"intermediates:{name}", key=f"name {name}")
-            continue
-        ln = info["longname"]
-        ctx.check(rule, info["cls"], ln == name, f"{name}: longname of its tensor is `{ln}`",
-                  f"the tensor built by {name}._build_tensor has the long name `{ln}`; Obj.expand_intermediates looks intermediates up by "
-                  f"that name, so `{name}` is never found (or another definition is used)", fn=f"intermediates:{name}", key=f"name {name}")
-    ln = ctx.model.fn("expr_container:Obj.longname")
-    fs = sorted(U(a.value) for a in walk_fn(ln) if isinstance(a, ast.Assign) and U(a.targets[0]) == "name" and isinstance(a.value, ast.JoinedStr))
-    want = sorted(["f'{base_name}{len(base.upper)}_{ext}'", "f'{base_name}{len(base.upper)}'", "f'u{lr}{n}'", "f'{base_name}0_{ext}_{self.space}'",
-                   "f'{base_name}0_{self.space}'", "f't2eri_{name[5:]}'", "f'd_{self.space}'"])
-    ctx.check(rule, ln, fs == want, "longname formats (t{rank}_{order}, p0_{order}_{space}, t2eri_{n})", f"longname formats {fs}", key="longname formats")
+    n = 0
+    for tag, renamed in (("default names", None), ("renamed tensors", RENAMED)):
+        tab = tensor_table(ctx, renamed)
+        ctx.floor(rule, "registered intermediate classes", len(tab), 25)
+        for name, info in tab.items():
+            if info["tensor_name"] == "Zero":
+                ctx.ok(rule, info["cls"], f"{name}: Zero placeholder (resolved by _build_factored_term)", fn=f"intermediates:{name}",
+                       key=f"name {name} {tag}")
+                continue
+            ln = info["longname"]
+            n += 1
+            ctx.check(rule, info["cls"], ln == name, f"{name}: longname of its tensor `{info['tensor_name']}` is `{ln}` [{tag}]",
+                      f"the tensor `{info['tensor_name']}` built by {name}._build_tensor has the default long name `{ln}` [{tag}]; "
+                      f"Obj.expand_intermediates looks intermediates up by that name, so `{name}` is never found (or another definition "
+                      "is used)", fn=f"intermediates:{name}", key=f"name {name} {tag}")
+    # the registry: flattened by class name; classes registered under their class name
     av = ctx.model.fn("intermediates:Intermediates.__init__")
-    a = [x for x in walk_fn(av) if isinstance(x, (ast.Assign, ast.AnnAssign)) and "_available" in U(x.targets[0] if isinstance(x, ast.Assign) else x.target)]
-    ok = len(a) == 1 and U(a[0].value) == "{name: obj for objects in self._registered.values() for name, obj in objects.items()}"
-    ctx.check(rule, av, ok, "available = all registered classes by class name", "registry flattening changed", key="available")
+    reg = {"t_amplitude": {"t2_1": sym("T21"), "t1_2": sym("T12")}, "mp_density": {"p0_2_oo": sym("P2")}, "empty": {}}
+    me = {}
+
+    def mk_self():
+        me["self"] = Obj("intermediates:Intermediates", "self")
+        return dict(self=me["self"])
+
+    def ri(sx_, a, kw):
+        o = Obj("intermediates:RegisteredIntermediate", "base")
+        o.attrs["_registry"] = {k: dict(v) for k, v in reg.items()}
+        return o
+    sx = Symex(ctx.model, inline=lambda q: True, hooks={"RegisteredIntermediate": ri}, what="Intermediates.__init__")
+    outs = sx.run(av, mk_self)
+    flat = {k: v for d in reg.values() for k, v in d.items()}
+    got = None
+    if len(outs) == 1 and outs[0].kind == "return":
+        fa = Symex(ctx.model, inline=lambda q: True, what="Intermediates.available")
+        o2 = fa.run("intermediates:Intermediates.available", lambda: dict(self=me["self"]))
+        got = o2[0].value if len(o2) == 1 and o2[0].kind == "return" else None
+    ctx.check(rule, av, got == flat, "available = all registered classes by class name",
+              f"Intermediates().available for the registry {reg} is {got}, expected {flat}", key="available")
     isub = ctx.model.fn("intermediates:RegisteredIntermediate.__init_subclass__")
-    st = [x for x in walk_fn(isub) if isinstance(x, ast.Assign) and U(x.targets[0]) == "cls._registry[itmd_type][name]"]
-    ctx.check(rule, isub, len(st) == 1 and U(st[0].value) == "cls()", "classes registered under their class name", "registration changed", key="register")
+    sx = Symex(ctx.model, inline=lambda q: True, what="__init_subclass__")
+    from ..symex import ClassRef
+    outs = sx.run(isub, lambda: dict(cls=ClassRef(ctx.model.module("intermediates"), "t2_1")))
+    c = sym("t2_1")
+    want = T("setitem", T("item", T("attr", c, "_registry"), T("attr", c, "_itmd_type")), T("attr", c, "__name__"), T("call", "t2_1", (), ()))
+    paths = [o for o in outs if o.kind == "return" and any(not pol and a.op == "cmp" and a.args[0] == "in" and
+                                                          a.args[1] == T("attr", c, "__name__") for a, pol in o.path)]
+    want2 = T("setitem", T("item", T("attr", c, "_registry"), "t_amplitude"), T("attr", c, "__name__"), T("call", "t2_1", (), ()))
+    ctx.check(rule, isub, bool(paths) and all(want in o.effects or want2 in o.effects for o in paths),
+              "classes registered as an instance under their class name",
+              f"__init_subclass__ of a class that is not registered yet: effects {[o.effects for o in paths]}, expected {show(want)}",
+              key="register")
     from . import c19
-    saved = ctx.per_rule
     c19.r19h(ctx)
+    _r11e_lookup(ctx)
+
+
+def _r11e_lookup(ctx):
+    """Obj.expand_intermediates: the definition is the registry entry under the default long name of the tensor and is
+    expanded on the tensor's own indices in the order the tensor lists them"""
+    rule = "R11e"
     ob = ctx.model.fn("expr_container:Obj.expand_intermediates")
-    lk = [c for c in calls_in(ob) if call_name(c) == "get" and U(c.func.value).endswith(".available")]
-    ctx.check(rule, ob, len(lk) == 1, "definitions looked up in the registry", "lookup changed", key="lookup")
+    calls_seen = []
+
+    def longname(sx_, a, kw):
+        d = kw.get("use_default_names", a[1] if len(a) > 1 else False)
+        return "t9_9" if d is True else "configured_name"
+    itm = Obj(None, "ITMD")
+    other = Obj(None, "OTHER")
+
+    def expand(tag):
+        def f(sx_, a, kw):
+            calls_seen.append((tag, tuple(a), dict(kw)))
+            return sym(f"{tag}.expanded")
+        return f
+    itm.attrs["expand_itmd"] = expand("ITMD")
+    other.attrs["expand_itmd"] = expand("OTHER")
+
+    def intermediates(sx_, a, kw):
+        o = Obj(None, "Intermediates()")
+        o.attrs["available"] = {"t9_9": itm, "configured_name": other}
+        return o
+    idx = tuple(mk_index(x) for x in "ijab")
+    sx = Symex(ctx.model, inline=lambda q: q.split(".")[-1] not in ("longname",), hooks={"longname": longname, "Intermediates": intermediates},
+               what="Obj.expand_intermediates")
+
+    def args():
+        del calls_seen[:]
+        base = Obj("sympy_objects:Amplitude", "tensor")
+        return dict(self=Obj("expr_container:Obj", "obj", base=base, sympy=base, exponent=1, idx=idx, assumptions={}), target=idx,
+                    return_sympy=True, fully_expand=sym("LEVEL"))
+    outs = sx.run(ob, args)
+    ok = len(outs) >= 1 and all(o.kind == "return" for o in outs) and calls_seen and all(c[0] == "ITMD" for c in calls_seen)
+    ctx.check(rule, ob, ok, "definition looked up in the registry under the default long name",
+              f"Obj.expand_intermediates expands {[c[0] for c in calls_seen]} (outcomes {outs[:2]}): the registry is keyed by the default "
+              "long name of the tensor", key="lookup")
+    good = calls_seen and all(tuple(c[2].get("indices", c[1][0] if c[1] else ())) == idx and c[2].get("fully_expand", None) == sym("LEVEL")
+                              for c in calls_seen)
+    ctx.check(rule, ob, bool(good), "expanded on the indices of the tensor in the order it lists them, expansion level forwarded",
+              f"Obj.expand_intermediates calls expand_itmd with {[(c[1], c[2]) for c in calls_seen]}", key="lookup arguments")
 
 
 def r11f(ctx):
     rule = "R11f"
-    reg = registry(ctx)
-    for name, info in reg.items():
+    tab = tensor_table(ctx)
+    for name, info in tab.items():
         d = info["default_idx"]
-        got = info["idx_order"]
-        ctx.check(rule, info["cls"], got is not None and list(got) == list(d), f"{name}: tensor.idx reproduces {tuple(d)}",
-                  f"{name}: Obj.expand_intermediates hands the indices to expand_itmd in the order {got}, but the definition expects "
-                  f"_default_idx order {tuple(d)}", fn=f"intermediates:{name}", key=f"order {name}")
-        for grp in info["groups"]:
-            srt = sorted(grp, key=CANON_KEY)
-            ctx.check(rule, info["cls"], list(grp) == srt, f"{name}: default group {tuple(grp)} already canonical",
-                      f"{name}: default index group {tuple(grp)} is not in canonical order {tuple(srt)}: construction permutes the "
-                      "defaults and the read-back order differs", fn=f"intermediates:{name}", key=f"canonical {name} {''.join(grp)}")
-        if info["bra_ket_sym"] and len(info["groups"]) == 2:
-            up, lo = info["groups"]
-            ctx.check(rule, info["cls"], not need_bra_ket_swap(up, lo), f"{name}: no bra-ket swap for the defaults",
-                      f"{name}: the default upper/lower groups {up}/{lo} are exchanged on construction", fn=f"intermediates:{name}",
-                      key=f"swap {name}")
-        ctx.check(rule, info["cls"], info["partition_ok"], f"{name}: _build_tensor slices partition the indices",
-                  f"{name}: the slices of `indices` in _build_tensor overlap or leave a gap ({info['slices']})", fn=f"intermediates:{name}",
-                  key=f"partition {name}")
+        got = info["idx"]
+        ctx.check(rule, info["cls"], list(got) == list(d), f"{name}: tensor.idx reproduces {tuple(d)}",
+                  f"{name}: Obj.expand_intermediates hands the indices to expand_itmd in the order {got} (read back from the constructed "
+                  f"{info['kind']}), but the definition expects _default_idx order {tuple(d)}", fn=f"intermediates:{name}", key=f"order {name}")
+        ctx.check(rule, info["cls"], info["built"] == info["given"] and info["sign"] == 1,
+                  f"{name}: construction keeps the default index groups {info['given']} and the sign",
+                  f"{name}: the default index groups {info['given']} are stored as {info['built']} with sign {info['sign']}: construction "
+                  "permutes the defaults and the read-back order / sign differs from the definition", fn=f"intermediates:{name}",
+                  key=f"canonical {name}")
+        flat = [x for g in info["given"] for x in g]
+        ctx.check(rule, info["cls"], sorted(flat) == sorted(d) and len(set(flat)) == len(flat), f"{name}: _build_tensor distributes every index once",
+                  f"{name}: _build_tensor builds the tensor on {info['given']}; the indices {tuple(d)} are not used exactly once",
+                  fn=f"intermediates:{name}", key=f"partition {name}")
+
+
+# ---------------------------------------------------------------------------
+# R11h / R11i: the pool of matches of a long intermediate (concrete decision tables)
+
+LV = FI + "LongItmdVariants."
+
+
+def _pools():
+    """Small pools {itmd_indices: {remainder: {positions: [(term_i, pref, unit pref)]}}}: hand-made corner cases and a
+    deterministic enumeration (position order, empty lists, terms listed at none / some / all positions)."""
+    F = Fraction
+    yield {("i", "a"): {"R0": {(0,): [(0, 1, 1), (1, 2, 1)], (1,): [(2, 1, 1)], (0, 1): [(0, 1, 1), (3, 1, 2)]}, "R1": {(0,): [(5, 1, 1)]}},
+           ("j", "b"): {"R2": {(1,): [(0, 1, 1)], (0,): [(4, 1, 1), (0, 3, 1)]}}}
+    yield {("i", "a"): {"R0": {(0,): [(4, 1, 1)], (1,): [(0, 1, 1)], (2,): [(0, F(1, 2), 1), (0, 1, -1), (1, 1, 1)]}}}
+    yield {("i", "a"): {"R0": {(0,): [(0, 1, 1)], (1,): [(1, 1, 1)]}, "R1": {(0,): [(2, 1, 1)]}}, ("j", "b"): {"R0": {(0,): [(0, 1, 1)]}}}
+    yield {("i", "a"): {"R0": {}}, ("j", "b"): {}}
+    yield {}
+    import itertools
+    import random
+    rnd = random.Random(11)
+    for n in range(40):
+        pool = {}
+        for ik in range(rnd.randint(1, 3)):
+            rems = {}
+            for rk in range(rnd.randint(0, 3)):
+                pos = {}
+                for pk in rnd.sample([(0,), (1,), (2,), (0, 1), (1, 2), (0, 1, 2)], rnd.randint(0, 4)):
+                    pos[pk] = [(rnd.randint(0, 4), rnd.choice([1, -1, F(1, 2)]), rnd.choice([1, -1, 2])) for _ in range(rnd.randint(0, 3))]
+                rems[f"R{rk}"] = pos
+            pool[("i", "a", ik)] = rems
+        yield pool
+
+
+def _copy_pool(p):
+    return {k: {r: {pos: list(ms) for pos, ms in d.items()} for r, d in v.items()} for k, v in p.items()}
 
 
 def r11h(ctx):
-    """pool clean-up of LongItmdVariants must visit every entry"""
+    """pool clean-up of LongItmdVariants: evaluated on concrete pools against the specification"""
     rule = "R11h"
-    for name in ("remove_used_terms", "clean_empty"):
-        fn = ctx.model.fn(FI + f"LongItmdVariants.{name}")
-        esc = [n for n in walk_fn(fn) if isinstance(n, (ast.Break, ast.Return, ast.Continue))]
-        ctx.check(rule, fn, not esc, f"{name}: every pool entry is visited",
-                  f"{name} leaves its sweep early (`{U(esc[0]) if esc else ''}` at line {esc[0].lineno if esc else 0}): entries of already "
-                  "used terms stay in the pool and the term is factored a second time", key=f"{name} exhaustive")
-    ru = ctx.model.fn(FI + "LongItmdVariants.remove_used_terms")
-    td = [a for a in walk_fn(ru) if isinstance(a, ast.Assign) and U(a.targets[0]) == "to_delete"]
-    ctx.check(rule, ru, len(td) == 1 and U(td[0].value) == "[i for i, m in enumerate(matches) if m[0] in used_terms]",
-              "every match of a used term is deleted", "selection of the matches to delete changed", key="to_delete")
-    dl = [n for n in walk_fn(ru) if isinstance(n, ast.For) and U(n.iter) == "sorted(to_delete, reverse=True)"]
-    ctx.check(rule, ru, len(dl) == 1 and U(dl[0].body[0]) == "del matches[i]", "deleted from the back", "deletion order changed", key="delete order")
-    its = sorted(U(n.iter) for n in walk_fn(ru) if isinstance(n, ast.For))
-    ctx.check(rule, ru, its == ["empty_pos", "positions.items()", "remainders.values()", "self.values()", "sorted(to_delete, reverse=True)"],
-              "all itmd indices, remainders and positions swept", f"loops {its}", key="sweep loops")
+    ru = ctx.model.fn(LV + "remove_used_terms")
+    ce = ctx.model.fn(LV + "clean_empty")
+    sx = Symex(ctx.model, inline=lambda q: True, what="LongItmdVariants clean-up")
+    n = 0
+    for k, pool in enumerate(_pools()):
+        for used in ([0], [0, 2], [1, 3, 4], [], [0, 1, 2, 3, 4, 5]):
+            # specification: no match of a used term survives anywhere, every other match survives in order, positions
+            # whose list became empty disappear (positions empty before stay as they are only if they were non-empty)
+            want = {}
+            for ik, rems in pool.items():
+                want[ik] = {}
+                for r, poss in rems.items():
+                    want[ik][r] = {}
+                    for pos, ms in poss.items():
+                        left = [m for m in ms if m[0] not in used]
+                        if left:
+                            want[ik][r][pos] = left
+            st = {}
+
+            def args():
+                st["p"] = _copy_pool(pool)
+                return dict(self=st["p"], used_terms=list(used))
+            outs = sx.run(ru, args)
+            ok = len(outs) == 1 and outs[0].kind == "return" and st["p"] == want
+            n += 1
+            if not ok:
+                left = sorted({m[0] for rems in st["p"].values() for poss in rems.values() for ms in poss.values() for m in ms} & set(used))
+                ctx.bad(rule, ru, f"remove_used_terms({used}) on the pool {pool} leaves {st['p']}, expected {want}"
+                        + (f": matches of the used terms {left} stay in the pool and the terms are factored a second time" if left else ""),
+                        key=f"remove_used_terms pool {k} used {used}")
+            else:
+                ctx.ok(rule, ru, f"remove_used_terms({used}) on pool {k}: every match of a used term removed, everything else kept",
+                       key=f"remove_used_terms pool {k} used {used}")
+            # clean_empty afterwards: exactly the empty remainders and the indices without remainders vanish
+            want2 = {ik: {r: poss for r, poss in rems.items() if poss} for ik, rems in want.items()}
+            want2 = {ik: rems for ik, rems in want2.items() if rems}
+            st2 = {}
+
+            def args2():
+                st2["p"] = _copy_pool(want)
+                return dict(self=st2["p"])
+            outs = sx.run(ce, args2)
+            ok = len(outs) == 1 and outs[0].kind == "return" and st2["p"] == want2
+            ctx.check(rule, ce, ok, f"clean_empty on pool {k}/{used}: empty remainders and index entries removed, nothing else",
+                      f"clean_empty on {want} leaves {st2['p']}, expected {want2}", key=f"clean_empty pool {k} used {used}")
+    ctx.floor(rule, "pool clean-up evaluations", n, 100)
 
 
 def r11i(ctx):
-    """both stored prefactors of a match refer to the stored reference remainder"""
+    """LongItmdVariants.add: a match is filed under the first stored remainder it can be mapped onto, with BOTH stored
+    prefactors multiplied by the sign of that mapping; otherwise it founds a new remainder with the prefactors as given"""
     rule = "R11i"
-    fn = ctx.model.fn(FI + "LongItmdVariants.add")
-    params = [a.arg for a in fn.args.args]
-    cmp_calls = [c for c in calls_in(fn) if call_name(c) == "_compare_remainder"]
-    ctx.floor(rule, "remainder comparison in LongItmdVariants.add", len(cmp_calls), 1)
-    st = enclosing_stmt(cmp_calls[0])
-    if not (isinstance(st, ast.Assign) and isinstance(st.targets[0], ast.Name)):
-        raise AnalysisError("R11i: result of _compare_remainder is not bound to a name")
-    sign = st.targets[0].id
-    loop = enclosing(st, ast.For)
-    if loop is None:
-        raise AnalysisError("R11i: _compare_remainder is not called in the sweep over stored remainders")
-    # the stored records: tuples (term_i, prefactor, unit prefactor) appended / stored in lists
-    recs = [t for t in walk_fn(fn) if isinstance(t, ast.Tuple) and len(t.elts) == 3 and all(isinstance(x, ast.Name) for x in t.elts)
-            and isinstance(t.ctx, ast.Load) and t.elts[0].id == params[1]]
-    ctx.floor(rule, "stored match records", len(recs), 2)
-    names = {(r.elts[1].id, r.elts[2].id) for r in recs}
-    if len(names) != 1:
-        raise AnalysisError(f"R11i: stored records differ in shape: {names}")
-    pref, unit = names.pop()
+    fn = ctx.model.fn(LV + "add")
+    F = Fraction
+    IDX = ("i", "a")
+    cases = []
+    for pref, unit in ((F(1, 2), 3), (2, 2), (-1, F(1, 4)), (1, 1)):
+        for signs in (("R0", -1), ("R0", 1), ("R1", -1), ("R1", 1), (None, None)):
+            cases.append((pref, unit, signs))
+    n = 0
+    for pref, unit, (hit, sign) in cases:
+        for existing in ("other", "same", "none", "dup", "dupsign"):
+            if existing == "none":
+                pool0 = {}
+            else:
+                pool0 = {IDX: {"R0": {(0, 1): [(7, 1, 1)]}, "R1": {(2,): [(8, 1, 1)]}}, ("j", "b"): {"R0": {(0, 1): [(9, 1, 1)]}}}
+                if existing == "same":
+                    pool0[IDX][hit or "R0"][(0, 1)] = [(1, 5, 5)]
+                if existing in ("dup", "dupsign") and hit is not None:
+                    pool0[IDX][hit][(0, 1)] = [(1, pref * sign, unit * sign * (-1 if existing == "dupsign" else 1))]
+            st = {}
+            seen = []
 
-    def scalings(name):
-        out = []
-        for n in walk_fn(loop):
-            if isinstance(n, ast.AugAssign) and U(n.target) == name and isinstance(n.op, ast.Mult):
-                out.append(U(n.value))
-            elif isinstance(n, ast.Assign) and U(n.targets[0]) == name and isinstance(n.value, ast.BinOp) and isinstance(n.value.op, ast.Mult):
-                fs = [U(f) for f in c13._flatten(n.value)]
-                if name in fs:
-                    fs.remove(name)
-                    out.extend(fs)
-                else:
-                    out.append("<rebound>")
-            elif isinstance(n, (ast.Assign, ast.AugAssign)) and U(n.targets[0] if isinstance(n, ast.Assign) else n.target) == name:
-                out.append("<rebound>")
-        return sorted(out)
-    sp, su = scalings(pref), scalings(unit)
-    ctx.check(rule, loop, sp == [sign], f"`{pref}` is mapped onto the stored remainder by the sign `{sign}` of _compare_remainder",
-              f"`{pref}` is rescaled by {sp} instead of the sign `{sign}` that maps the remainder onto the stored reference remainder",
-              key="prefactor sign")
-    ctx.check(rule, loop, su == sp, f"`{unit}` receives the same sign: both stored prefactors refer to the stored remainder",
-              f"`{pref}` is rescaled by {sp} but `{unit}` by {su}: the record mixes a prefactor relative to the stored remainder with a unit "
-              "prefactor relative to the unmapped remainder, and _factor_mixed_prefactors completes the term with the wrong sign",
-              key="unit sign")
-    # the new-remainder branch stores the record unscaled against its own remainder
-    newb = [r for r in recs if enclosing(r, ast.For) is not loop]
-    ctx.check(rule, fn, len(newb) >= 1, "a new remainder becomes the reference with the unscaled prefactors", "the new-remainder branch vanished",
-              key="new remainder")
-    cons = ctx.model.fn(FI + "_factor_mixed_prefactors")
-    a = {U(x.targets[0]): U(x.value).replace(" ", "") for x in walk_fn(cons) if isinstance(x, ast.Assign)}
-    ctx.check(rule, cons, any("unit_factors[term_i]" in v for v in a.values()), "consumer: the completion uses the stored unit prefactor",
-              "the consumer of the unit prefactor changed", key="consumer")
+            def cmp_model(sx_, a, kw):
+                ref = kw.get("ref_remainder", a[1] if len(a) > 1 else None)
+                seen.append((kw.get("remainder", a[0] if a else None), ref, kw.get("itmd_indices", a[2] if len(a) > 2 else None)))
+                return sign if ref == hit else None
+            sx = Symex(ctx.model, inline=lambda q: not q.endswith("_compare_remainder"), hooks={"_compare_remainder": cmp_model},
+                       what="LongItmdVariants.add")
+
+            def args():
+                st["p"] = _copy_pool(pool0)
+                del seen[:]
+                return dict(self=st["p"], term_i=1, itmd_indices=IDX, remainder="NEW", matching_itmd_terms=(1, 0), prefactor=pref,
+                            unit_factorization_pref=unit)
+            outs = sx.run(fn, args)
+            want = _copy_pool(pool0)
+            want.setdefault(IDX, {})
+            if hit is not None and hit in want[IDX]:
+                rec = (1, pref * sign, unit * sign)
+                lst = want[IDX][hit].setdefault((0, 1), [])
+                if not any(m[0] == 1 and m[1] == rec[1] and abs(m[2]) == abs(rec[2]) for m in lst):
+                    lst.append(rec)
+            else:
+                want[IDX]["NEW"] = {(0, 1): [(1, pref, unit)]}
+            got = st.get("p")
+            ok = len(outs) == 1 and outs[0].kind == "return" and got == want
+            n += 1
+            what = f"add(pref={pref}, unit={unit}) with stored remainders matching {hit} by {sign} [{existing}]"
+            why = f"{what}: pool becomes {got}, expected {want}"
+            if not ok and got is not None and hit is not None:
+                recs = [m for m in got.get(IDX, {}).get(hit, {}).get((0, 1), []) if m[0] == 1]
+                if recs and recs[-1][1] == pref * sign and recs[-1][2] != unit * sign:
+                    why += (": the stored prefactor refers to the stored remainder, the unit factorisation prefactor to the unmapped one; "
+                            "_factor_mixed_prefactors then completes the term with the wrong sign")
+            ctx.check(rule, fn, ok, f"{what}: record filed with both prefactors referring to the stored remainder", why,
+                      key=f"add {pref} {unit} {hit} {sign} {existing}")
+            # the comparison is made against the stored remainders of the same itmd indices, with those indices fixed
+            okc = all(r == "NEW" and i == IDX for r, ref, i in seen) and (existing == "none" or [ref for _, ref, _ in seen] ==
+                                                                          (["R0", "R1"][:(["R0", "R1"].index(hit) + 1) if hit else 2]))
+            ctx.check(rule, fn, okc, f"{what}: compared with the stored remainders of these itmd indices in order",
+                      f"{what}: _compare_remainder called with {seen}", key=f"add compare {pref} {unit} {hit} {sign} {existing}")
+    ctx.floor(rule, "evaluations of LongItmdVariants.add", n, 60)
 
 
 def run(ctx):
